@@ -66,18 +66,53 @@ Hypothesis HL : arun a_init L = Some (afin, SD).
 Hypothesis Hfin : a_run afin = None.
 Hypothesis Hdev : dev_typed D dev.
 
+(* ------------------------------------------------------------------ the engine-made frames on the plan stack *)
+Inductive fd :=
+  | FDL (l : list msg)                 (* the rewind plan made by resume() *)
+  | FDS (sid : nat) (started : bool)   (* the single-message plan of a suspension request *)
+  | FDH (h : helper P).                (* the suspender plan *)
+Definition fd_frame (f : fd) : frame P :=
+  match f with FDL l => FList l | FDS sid b => FSingle (smsg sid) b | FDH h => FHelper h end.
+(* the messages of the user's plan it will still re-issue *)
+Definition fd_msgs (f : fd) : list msg :=
+  match f with FDL l => l | FDS _ _ => [] | FDH h => match hph h with HRewind ms => ms | _ => hrw h end end.
+Definition fd_ok (f : fd) : bool :=
+  match f with
+  | FDH h => match hpre h, hpost h, hph h with
+             | None, None, (H0 | HRwFalse | HWait | HResume | HRwBack | HRewind _) => hwas h
+             | _, _, _ => false
+             end
+  | _ => true
+  end.
+(* not started yet: its first message (rewindable False) acts as a checkpoint *)
+Definition fd_hold (f : fd) : bool := match f with FDH h => match hph h with H0 => true | _ => false end | _ => false end.
+(* inside the section in which rewinding is switched off *)
+Definition fd_win (f : fd) : bool :=
+  match f with FDH h => match hph h with HRwFalse | HWait | HResume => true | _ => false end | _ => false end.
+Definition fmsgs (fl : list fd) : list msg := List.concat (map fd_msgs fl).
+Arguments fmsgs : simpl never.
+
+Lemma fmsgs_cons f fl : fmsgs (f :: fl) = fd_msgs f ++ fmsgs fl.
+Proof. reflexivity. Qed.
+Lemma fmsgs_app a b : fmsgs (a ++ b) = fmsgs a ++ fmsgs b.
+Proof. unfold fmsgs. rewrite map_app, concat_app. reflexivity. Qed.
+
 (* ------------------------------------------------------------------ positions *)
 Record pos := {
   p_pre : list msg;               (* processed, up to and including the last checkpoint-like message *)
   p_c : list msg;                 (* processed since then (= the cache, together with [p_infl]) *)
   p_infl : list msg;              (* the message whose command is waiting on a future, if any *)
-  p_fl : list (list msg);         (* contents of the replay lists on the plan stack, top first *)
+  p_fl : list fd;                 (* the engine-made frames on the plan stack, top first *)
   p_u : list msg;                 (* what the user plan will still yield *)
   p_p : P; p_started : bool;
   p_a0 : abs; p_acur : abs; p_aend : abs;     (* reference state after [p_pre], now, at the end of this point *)
   p_d0 : list doc; p_dc : list doc }.         (* reference documents of [p_pre], of [p_c] *)
 
-Definition pend (q : pos) : list msg := List.concat (p_fl q) ++ p_u q.
+Definition pend (q : pos) : list msg := fmsgs (p_fl q) ++ p_u q.
+
+(* below a suspender plan that has not started nothing of the user's plan is in progress *)
+Definition HoldOK (c infl : list msg) (fl : list fd) : Prop :=
+  forall tops h rest, fl = tops ++ FDH h :: rest -> hph h = H0 -> c = [] /\ infl = [] /\ fmsgs tops = [].
 
 Definition PosOK (q : pos) : Prop :=
   L = p_pre q ++ p_c q ++ p_infl q ++ pend q /\
@@ -85,15 +120,22 @@ Definition PosOK (q : pos) : Prop :=
   arun a_init (p_pre q) = Some (p_a0 q, p_d0 q) /\
   arun (p_a0 q) (p_c q) = Some (p_acur q, p_dc q) /\
   (exists dseg, arun (p_a0 q) (p_c q ++ p_infl q ++ bodypre (pend q)) = Some (p_aend q, dseg)) /\
-  forallb bodym (p_c q) = true /\ forallb bodym (p_infl q) = true /\ forallb (forallb bodym) (p_fl q) = true.
+  forallb bodym (p_c q) = true /\ forallb bodym (p_infl q) = true /\
+  (forallb bodym (fmsgs (p_fl q)) = true /\ forallb fd_ok (p_fl q) = true /\ HoldOK (p_c q) (p_infl q) (p_fl q)).
 
-Definition Link (q : pos) (s : st) : Prop :=
+(* [rw]: is rewinding switched on *)
+Definition LinkR (rw : bool) (q : pos) (s : st) : Prop :=
   cache s = Some (p_c q ++ p_infl q) /\
-  plans s = map (@FList P) (p_fl q) ++ [FUser pid (p_p q) (p_started q)] /\
+  plans s = map fd_frame (p_fl q) ++ [FUser pid (p_p q) (p_started q)] /\
   uid_supply s = a_next (p_acur q) /\
   BR (bundlers s) (p_a0 q) (p_acur q) (p_aend q) /\
-  exc_slot s = None /\ stashed s = None /\ True /\ rewindable s = true /\
+  exc_slot s = None /\ stashed s = None /\
+  (if rw then forallb (fun f => negb (fd_win f)) (p_fl q) = true
+   else p_c q = [] /\ p_infl q = [] /\ exists h rest, p_fl q = FDH h :: rest /\ fd_win (FDH h) = true /\
+                                                      forallb (fun f => negb (fd_win f)) rest = true) /\
+  rewindable s = rw /\
   record_intr s = false /\ main_err s = None.
+Definition Link := LinkR true.
 
 Definition Docs (q : pos) (os : list obs) : Prop :=
   incl (final_events os) (doc_events SD) /\ incl (doc_events (p_d0 q ++ p_dc q)) (final_events os) /\
@@ -103,32 +145,74 @@ Definition DocsAll (os : list obs) : Prop :=
   incl (final_events os) (doc_events SD) /\ incl (doc_events SD) (final_events os) /\
   stops os = doc_stops SD /\ no_raise os = true.
 
-Definition RespsOK (n : nat) (s : st) : Prop := exists vs, resps s = map RVal vs /\ List.length vs = n.
+(* a single-message plan that has not started is sent None (it was pushed with that response) *)
+Fixpoint new_none (fl : list fd) (vs : list val) : Prop :=
+  match fl, vs with
+  | FDS _ false :: fl', v :: vs' => v = VNone /\ new_none fl' vs'
+  | _ :: fl', _ :: vs' => new_none fl' vs'
+  | _, _ => True
+  end.
+Definition not_new (fl : list fd) : Prop := match fl with FDS _ false :: _ => False | _ => True end.
+Definition RespsOK (fl : list fd) (n : nat) (s : st) : Prop :=
+  exists vs, resps s = map RVal vs /\ List.length vs = n /\ new_none fl vs.
 
 Definition Core (q : pos) (s : st) (os : list obs) : Prop := PosOK q /\ Link q s /\ Docs q os.
+Definition CoreW (q : pos) (s : st) (os : list obs) : Prop := PosOK q /\ LinkR false q s /\ Docs q os.
 Definition FinCore (s : st) (os : list obs) : Prop :=
-  plans s = [] /\ bundlers s = [] /\ stashed s = None /\ main_err s = None /\ DocsAll os.
+  forallb (is_single P) (plans s) = true /\ bundlers s = [] /\ stashed s = None /\ main_err s = None /\ DocsAll os.
+
+(* nothing in flight, unless what is in flight is about to be rewound by a suspension request *)
+Definition InflOK (q : pos) : Prop := p_infl q = [] \/ exists sid rest, p_fl q = FDS sid false :: rest.
+Definition TopNew (q : pos) : Prop := exists sid rest, p_fl q = FDS sid false :: rest.
 
 Inductive Inv (s : st) (os : list obs) : Prop :=
   | I_ns q : Core q s os -> state s = Idle -> (pc s = PcNotStarted \/ pc s = PcPermit0) -> must_cancel s = false ->
-             p_infl q = [] -> RespsOK (S (List.length (p_fl q))) s -> Inv s os
+             p_infl q = [] -> RespsOK (p_fl q) (S (List.length (p_fl q))) s -> Inv s os
   | I_rs q : Core q s os -> state s = Running -> pc s = PcSleep0 -> must_cancel s = false -> permit s = true ->
-             p_infl q = [] -> RespsOK (S (List.length (p_fl q))) s -> Inv s os
+             InflOK q -> RespsOK (p_fl q) (S (List.length (p_fl q))) s -> Inv s os
   | I_rc q k m : Core q s os -> state s = Running -> pc s = PcCmd k -> must_cancel s = false -> permit s = true ->
-             p_infl q = [m] -> kmatch (p_acur q) k m -> RespsOK (List.length (p_fl q)) s ->
-             last_msg None os = Some m -> Inv s os
-  | I_ps q : Core q s os -> state s = Pausing -> pc s = PcSleep0 -> must_cancel s = true -> interrupted s = true ->
-             p_infl q = [] -> RespsOK (S (List.length (p_fl q))) s -> Inv s os
+             p_infl q = [m] -> kmatch (p_acur q) k m -> RespsOK (List.tl (p_fl q)) (List.length (p_fl q)) s ->
+             last_msg None os = Some m -> not_new (p_fl q) -> Inv s os
   | I_rk q : Core q s os -> state s = Running -> pc s = PcCmd KCkptSleep -> must_cancel s = false -> permit s = true ->
-             p_infl q = [] -> RespsOK (List.length (p_fl q)) s -> Inv s os
+             p_infl q = [] -> RespsOK (List.tl (p_fl q)) (List.length (p_fl q)) s -> not_new (p_fl q) -> Inv s os
+  | I_ps q : Core q s os -> state s = Pausing -> pc s = PcSleep0 -> must_cancel s = true -> interrupted s = true ->
+             RespsOK (p_fl q) (S (List.length (p_fl q))) s -> Inv s os
   | I_pc q k : Core q s os -> state s = Pausing -> pc s = PcCmd k -> must_cancel s = true -> interrupted s = true ->
-             RespsOK (List.length (p_fl q)) s -> Inv s os
+             RespsOK (List.tl (p_fl q)) (List.length (p_fl q)) s -> Inv s os
   | I_pd q : Core q s os -> state s = Paused -> pc s = PcPaused -> must_cancel s = false ->
-             (interrupted s = true -> permit s = false) -> (interrupted s = false -> p_infl q = []) ->
-             RespsOK (S (List.length (p_fl q))) s -> Inv s os
-  | I_final : FinCore s os -> state s = Running -> pc s = PcFinalSleep (TReturn rv) -> must_cancel s = false -> Inv s os
-  | I_late : FinCore s os -> state s = Pausing -> pc s = PcFinalSleep (TReturn rv) -> must_cancel s = true -> Inv s os
-  | I_done r : DocsAll os -> state s = Idle -> pc s = PcDone r -> res_ok r = true -> main_err s = None -> Inv s os.
+             (interrupted s = true -> permit s = false) -> (interrupted s = false -> InflOK q) ->
+             RespsOK (p_fl q) (S (List.length (p_fl q))) s -> Inv s os
+  | I_ss q : Core q s os -> state s = Suspending -> pc s = PcSleep0 -> must_cancel s = true -> permit s = true ->
+             TopNew q -> RespsOK (p_fl q) (S (List.length (p_fl q))) s -> Inv s os
+  | I_sc q k : Core q s os -> state s = Suspending -> pc s = PcCmd k -> must_cancel s = true -> permit s = true ->
+             (exists sid fl0 vs0, p_fl q = FDS sid false :: fl0 /\ resps s = map RVal (VNone :: vs0) /\
+                                  List.length vs0 = List.length fl0 /\ not_new fl0 /\ new_none (List.tl fl0) vs0) -> Inv s os
+  | I_w q : CoreW q s os -> state s = Running -> pc s = PcSleep0 -> must_cancel s = false -> permit s = true ->
+             RespsOK (p_fl q) (S (List.length (p_fl q))) s -> Inv s os
+  | I_wc q sid : CoreW q s os -> state s = Running -> pc s = PcCmd (KWaitFor [sid]) -> must_cancel s = false -> permit s = true ->
+             (exists h rest, p_fl q = FDH h :: rest /\ hph h = HWait) -> RespsOK (List.tl (p_fl q)) (List.length (p_fl q)) s -> Inv s os
+  | I_final : FinCore s os -> state s = Running -> pc s = PcFinalSleep (TReturn rv) -> must_cancel s = false ->
+             (exists l, cache s = Some l) -> Inv s os
+  | I_late : FinCore s os -> (state s = Pausing \/ state s = Suspending) -> pc s = PcFinalSleep (TReturn rv) ->
+             must_cancel s = true -> (exists l, cache s = Some l) -> Inv s os
+  | I_done r : DocsAll os -> state s = Idle -> pc s = PcDone r -> res_ok r = true -> main_err s = None ->
+             (exists l, cache s = Some l) -> Inv s os.
+
+Ltac inv_cases HI :=
+  destruct HI as [q (HP & HLk & HD) Hst Hpc Hmc Hin Hrs
+                 | q (HP & HLk & HD) Hst Hpc Hmc Hpm Hin Hrs
+                 | q k m (HP & HLk & HD) Hst Hpc Hmc Hpm Hin Hkm Hrs Hlm Hnn
+                 | q (HP & HLk & HD) Hst Hpc Hmc Hpm Hin Hrs Hnn
+                 | q (HP & HLk & HD) Hst Hpc Hmc Hit Hrs
+                 | q k (HP & HLk & HD) Hst Hpc Hmc Hit Hrs
+                 | q (HP & HLk & HD) Hst Hpc Hmc Hip Hii Hrs
+                 | q (HP & HLk & HD) Hst Hpc Hmc Hpm Htn Hrs
+                 | q k (HP & HLk & HD) Hst Hpc Hmc Hpm Hsc
+                 | q (HP & HLk & HD) Hst Hpc Hmc Hpm Hrs
+                 | q sid (HP & HLk & HD) Hst Hpc Hmc Hpm Hhw Hrs
+                 | (F1 & F2 & F3 & F4 & F5) Hst Hpc Hmc Hca
+                 | (F1 & F2 & F3 & F4 & F5) Hst Hpc Hmc Hca
+                 | r HDA Hst Hpc Hro Hme Hca].
 
 (* ------------------------------------------------------------------ the fields the invariant reads *)
 Definition lsame (s s' : st) : Prop :=
@@ -139,17 +223,17 @@ Definition csame (s s' : st) : Prop :=
   lsame s s' /\ state s' = state s /\ pc s' = pc s /\ must_cancel s' = must_cancel s /\ permit s' = permit s /\
   interrupted s' = interrupted s /\ resps s' = resps s.
 
-Lemma Link_ext q s s' : lsame s s' -> Link q s -> Link q s'.
+Lemma Link_ext rw q s s' : lsame s s' -> LinkR rw q s -> LinkR rw q s'.
 Proof.
   intros (A1 & A2 & A3 & A4 & A5 & A6 & A7 & A8 & A9 & A10) (B1 & B2 & B3 & B4 & B5 & B6 & B7 & B8 & B9 & B10).
-  unfold Link. rewrite A1, A2, A3, A4, A5, A6, A8, A9, A10. repeat split; assumption.
+  unfold LinkR. rewrite A1, A2, A3, A4, A5, A6, A8, A9, A10. repeat split; assumption.
 Qed.
 Lemma dsame_lsame s s' : dsame s s' -> lsame s s'.
 Proof.
   intros ((K1 & K2 & K3 & K4 & K5 & K6 & K7 & K8 & K9 & K10 & K11 & K12 & K13) & C1 & C2 & C3).
   unfold lsame. repeat split; assumption.
 Qed.
-Lemma RespsOK_ext n s s' : resps s' = resps s -> RespsOK n s -> RespsOK n s'.
+Lemma RespsOK_ext fl n s s' : resps s' = resps s -> RespsOK fl n s -> RespsOK fl n s'.
 Proof. intros E (vs & H1 & H2). exists vs. rewrite E. auto. Qed.
 
 Ltac fin_csame :=
@@ -159,48 +243,10 @@ Ltac fin_csame :=
             | eapply RespsOK_ext; eassumption | eassumption
             | match goal with C : permit _ = permit _, H : _ -> permit _ = false |- _ -> permit _ = false =>
                 let Hi := fresh in intros Hi; rewrite C; apply H; congruence end
-            | match goal with H : _ -> p_infl _ = [] |- _ -> p_infl _ = [] => let Hi := fresh in intros Hi; apply H; congruence end ].
-
-Lemma Inv_csame s s' os : csame s s' -> Inv s os -> Inv s' os.
-Proof.
-  intros (HL' & C1 & C2 & C3 & C4 & C5 & C6) HI.
-  pose proof HL' as (A1 & A2 & A3 & A4 & A5 & A6 & A7 & A8 & A9 & A10).
-  destruct HI as [q (HP & HLk & HD) Hst Hpc Hmc Hin Hrs
-     | q (HP & HLk & HD) Hst Hpc Hmc Hpm Hin Hrs
-     | q k m (HP & HLk & HD) Hst Hpc Hmc Hpm Hin Hkm Hrs Hlm
-     | q (HP & HLk & HD) Hst Hpc Hmc Hit Hin Hrs
-     | q (HP & HLk & HD) Hst Hpc Hmc Hpm Hin Hrs
-     | q k (HP & HLk & HD) Hst Hpc Hmc Hit Hrs
-     | q (HP & HLk & HD) Hst Hpc Hmc Hip Hii Hrs
-     | (F1 & F2 & F3 & F4 & F5) Hst Hpc Hmc
-     | (F1 & F2 & F3 & F4 & F5) Hst Hpc Hmc
-     | r HDA Hst Hpc Hro Hme].
-  all: try (unfold FinCore in *).
-  - eapply I_ns; fin_csame.
-  - eapply I_rs; fin_csame.
-  - eapply (I_rc _ _ q k m); fin_csame.
-  - eapply I_ps; fin_csame.
-  - eapply I_rk with (q := q); fin_csame.
-  - eapply (I_pc _ _ q k); fin_csame.
-  - eapply I_pd; fin_csame.
-  - eapply I_final; try congruence. unfold FinCore. rewrite A2, A4, A6, A10. auto.
-  - eapply I_late; try congruence. unfold FinCore. rewrite A2, A4, A6, A10. auto.
-  - eapply I_done; try eassumption; congruence.
-Qed.
+            | match goal with H : _ -> InflOK _ |- _ -> InflOK _ => let Hi := fresh in intros Hi; apply H; congruence end ].
 
 Lemma Inv_main_err s os : Inv s os -> main_err s = None.
-Proof.
-  intros [q (HP & HLk & HD) Hst Hpc Hmc Hin Hrs
-     | q (HP & HLk & HD) Hst Hpc Hmc Hpm Hin Hrs
-     | q k m (HP & HLk & HD) Hst Hpc Hmc Hpm Hin Hkm Hrs Hlm
-     | q (HP & HLk & HD) Hst Hpc Hmc Hit Hin Hrs
-     | q (HP & HLk & HD) Hst Hpc Hmc Hpm Hin Hrs
-     | q k (HP & HLk & HD) Hst Hpc Hmc Hit Hrs
-     | q (HP & HLk & HD) Hst Hpc Hmc Hip Hii Hrs
-     | (F1 & F2 & F3 & F4 & F5) Hst Hpc Hmc
-     | (F1 & F2 & F3 & F4 & F5) Hst Hpc Hmc
-     | r HDA Hst Hpc Hro Hme]; try (apply HLk); assumption.
-Qed.
+Proof. intros HI. inv_cases HI; try (apply HLk); assumption. Qed.
 
 (* observations that carry no document, no message, no failure *)
 Definition neutral (o : list obs) : Prop :=
@@ -211,6 +257,12 @@ Proof.
   intros (N1 & N2 & N3 & N4) (D1 & D2 & D3 & D4). unfold Docs.
   rewrite final_events_app, stops_app, no_raise_app, N1, N2, N3, D4, !app_nil_r. auto.
 Qed.
+Lemma Docs_quiet q q' os o : p_d0 q' = p_d0 q -> p_dc q' = p_dc q ->
+  final_events o = [] -> stops o = [] -> no_raise o = true -> Docs q os -> Docs q' (os ++ o).
+Proof.
+  intros E1 E2 N1 N2 N3 (D1 & D2 & D3 & D4). unfold Docs.
+  rewrite E1, E2, final_events_app, stops_app, no_raise_app, N1, N2, N3, D4, !app_nil_r. auto.
+Qed.
 Lemma DocsAll_neutral os o : neutral o -> DocsAll os -> DocsAll (os ++ o).
 Proof.
   intros (N1 & N2 & N3 & N4) (D1 & D2 & D3 & D4). unfold DocsAll.
@@ -219,30 +271,125 @@ Qed.
 
 Lemma Inv_neutral s os o : neutral o -> Inv s os -> Inv s (os ++ o).
 Proof.
-  intros HN HI.
-  destruct HI as [q (HP & HLk & HD) Hst Hpc Hmc Hin Hrs
-     | q (HP & HLk & HD) Hst Hpc Hmc Hpm Hin Hrs
-     | q k m (HP & HLk & HD) Hst Hpc Hmc Hpm Hin Hkm Hrs Hlm
-     | q (HP & HLk & HD) Hst Hpc Hmc Hit Hin Hrs
-     | q (HP & HLk & HD) Hst Hpc Hmc Hpm Hin Hrs
-     | q k (HP & HLk & HD) Hst Hpc Hmc Hit Hrs
-     | q (HP & HLk & HD) Hst Hpc Hmc Hip Hii Hrs
-     | (F1 & F2 & F3 & F4 & F5) Hst Hpc Hmc
-     | (F1 & F2 & F3 & F4 & F5) Hst Hpc Hmc
-     | r HDA Hst Hpc Hro Hme].
+  intros HN HI. inv_cases HI.
   - eapply I_ns; try eassumption. split; [exact HP | split; [exact HLk | apply Docs_neutral; assumption]].
   - eapply I_rs; try eassumption. split; [exact HP | split; [exact HLk | apply Docs_neutral; assumption]].
   - eapply I_rc; try eassumption; [split; [exact HP | split; [exact HLk | apply Docs_neutral; assumption]]|].
     rewrite last_msg_app. destruct HN as (_ & _ & _ & N4). rewrite N4. assumption.
-  - eapply I_ps; try eassumption. split; [exact HP | split; [exact HLk | apply Docs_neutral; assumption]].
   - eapply I_rk; try eassumption. split; [exact HP | split; [exact HLk | apply Docs_neutral; assumption]].
+  - eapply I_ps; try eassumption. split; [exact HP | split; [exact HLk | apply Docs_neutral; assumption]].
   - eapply I_pc; try eassumption. split; [exact HP | split; [exact HLk | apply Docs_neutral; assumption]].
   - eapply I_pd; try eassumption. split; [exact HP | split; [exact HLk | apply Docs_neutral; assumption]].
+  - eapply I_ss; try eassumption. split; [exact HP | split; [exact HLk | apply Docs_neutral; assumption]].
+  - eapply I_sc; try eassumption. split; [exact HP | split; [exact HLk | apply Docs_neutral; assumption]].
+  - eapply I_w; try eassumption. split; [exact HP | split; [exact HLk | apply Docs_neutral; assumption]].
+  - eapply I_wc; try eassumption. split; [exact HP | split; [exact HLk | apply Docs_neutral; assumption]].
   - eapply I_final; try eassumption. unfold FinCore. repeat (split; [assumption|]). apply DocsAll_neutral; assumption.
   - eapply I_late; try eassumption. unfold FinCore. repeat (split; [assumption|]). apply DocsAll_neutral; assumption.
   - eapply I_done; try eassumption. apply DocsAll_neutral; assumption.
 Qed.
 
+Lemma neutral_intro o : final_events o = [] -> stops o = [] -> no_raise o = true -> (forall cur, last_msg cur o = cur) -> neutral o.
+Proof. intros. repeat split; assumption. Qed.
+
+Lemma lsame_refl s : lsame s s.
+Proof. unfold lsame. repeat split. Qed.
+Lemma lsame_trans a b c : lsame a b -> lsame b c -> lsame a c.
+Proof. unfold lsame. intros H1 H2. decompose [and] H1. decompose [and] H2. repeat split; congruence. Qed.
+Ltac lsame_tac := unfold lsame; simp_st; repeat split; reflexivity.
+
+Lemma task_step_inr (s : st) r : RE_Inv.tentry P presume D dev s = inr r -> task_step s = r.
+Proof. intros H. rewrite task_step_tentry, H. reflexivity. Qed.
+
+Definition nsame (s s' : st) : Prop :=
+  cache s' = cache s /\ plans s' = plans s /\ uid_supply s' = uid_supply s /\
+  exc_slot s' = exc_slot s /\ stashed s' = stashed s /\ True /\ rewindable s' = rewindable s /\
+  record_intr s' = record_intr s /\ main_err s' = main_err s.
+Ltac nsame_tac := unfold nsame; simp_st; repeat split; reflexivity.
+
+Lemma dsame_nsame s s' : dsame s s' -> nsame s s'.
+Proof.
+  intros ((K1 & K2 & K3 & K4 & K5 & K6 & K7 & K8 & K9 & K10 & K11 & K12 & K13) & C1 & C2 & C3).
+  unfold nsame. repeat split; assumption.
+Qed.
+
+Lemma Link_nsame rw q s s' : nsame s s' -> bundlers s' = bundlers s -> LinkR rw q s -> LinkR rw q s'.
+Proof.
+  intros (A1 & A2 & A3 & A5 & A6 & A7 & A8 & A9 & A10) A4. apply Link_ext. unfold lsame. repeat split; assumption.
+Qed.
+
+Lemma devonly_neutral o : forallb devonly o = true -> neutral o.
+Proof.
+  intros H. destruct (devonly_final_events _ H) as [F1 F2]. apply neutral_intro; try assumption.
+  - apply devdoc_no_raise, devonly_devdoc, H.
+  - apply devdoc_last_msg, devonly_devdoc, H.
+Qed.
+
+Lemma neutral_app a b : neutral a -> neutral b -> neutral (a ++ b).
+Proof.
+  intros (A1 & A2 & A3 & A4) (B1 & B2 & B3 & B4). apply neutral_intro.
+  - rewrite final_events_app, A1, B1. reflexivity.
+  - rewrite stops_app, A2, B2. reflexivity.
+  - rewrite no_raise_app, A3, B3. reflexivity.
+  - intros cur. rewrite last_msg_app, A4, B4. reflexivity.
+Qed.
+
+Lemma nobintr_BR bs a0 acur aend : BR bs a0 acur aend -> nobintr bs = true.
+Proof.
+  unfold RE_PointsB.BR. destruct (a_run acur).
+  - intros (b & X & Y & r0 & rend & -> & _ & _ & _ & (_ & R2 & _) & _). cbn. rewrite R2. reflexivity.
+  - intros ->. reflexivity.
+Qed.
+
+(* the invariant only reads these fields *)
+Lemma LinkR_ext rw q s s' :
+  nsame s s' -> (forall a0 acur aend, BR (bundlers s) a0 acur aend -> BR (bundlers s') a0 acur aend) ->
+  LinkR rw q s -> LinkR rw q s'.
+Proof.
+  intros (A1 & A2 & A3 & A5 & A6 & A7 & A8 & A9 & A10) HB (B1 & B2 & B3 & B4 & B5 & B6 & B7 & B8 & B9 & B10).
+  unfold LinkR. rewrite A1, A2, A3, A5, A6, A8, A9, A10. repeat split; try assumption. apply HB. exact B4.
+Qed.
+
+Lemma Inv_ext s s' os :
+  nsame s s' -> state s' = state s -> pc s' = pc s -> must_cancel s' = must_cancel s -> interrupted s' = interrupted s ->
+  resps s' = resps s ->
+  (permit s' = permit s \/ (permit s' = true /\ (state s = Paused -> interrupted s = false))) ->
+  (forall a0 acur aend, BR (bundlers s) a0 acur aend -> BR (bundlers s') a0 acur aend) -> (bundlers s = [] -> bundlers s' = []) ->
+  Inv s os -> Inv s' os.
+Proof.
+  intros N C1 C2 C3 C5 C6 C4 HB HB0 HI. pose proof N as (A1 & A2 & A3 & A5 & A6 & A7 & A8 & A9 & A10).
+  assert (HC : forall q, Core q s os -> Core q s' os).
+  { intros q (X & Y & Z). split; [exact X | split; [eapply LinkR_ext; eassumption | exact Z]]. }
+  assert (HCW : forall q, CoreW q s os -> CoreW q s' os).
+  { intros q (X & Y & Z). split; [exact X | split; [eapply LinkR_ext; eassumption | exact Z]]. }
+  assert (HR : forall fl n, RespsOK fl n s -> RespsOK fl n s') by (intros fl n; apply RespsOK_ext; exact C6).
+  assert (HPt : permit s = true -> permit s' = true) by (intros Hp; destruct C4 as [C4 | [C4 _]]; congruence).
+  inv_cases HI;
+    [ eapply I_ns with (q := q) | eapply I_rs with (q := q) | eapply (I_rc _ _ q k m) | eapply I_rk with (q := q)
+    | eapply I_ps with (q := q) | eapply (I_pc _ _ q k) | eapply I_pd with (q := q) | eapply I_ss with (q := q)
+    | eapply (I_sc _ _ q k) | eapply I_w with (q := q) | eapply (I_wc _ _ q sid) | eapply I_final | eapply I_late
+    | eapply I_done with (r := r) ];
+    try congruence; try assumption;
+    try solve [apply HC; split; [assumption | split; assumption]];
+    try solve [apply HCW; split; [assumption | split; assumption]];
+    try solve [apply HR; assumption]; try solve [apply HPt; assumption];
+    try solve [destruct Hpc; [left | right]; congruence];
+    try solve [destruct Hst; [left | right]; congruence];
+    try solve [unfold FinCore; rewrite A2, A6, A10, (HB0 F2); auto];
+    try solve [destruct Hca as [l Hca]; exists l; congruence].
+  - intros Hi. rewrite C5 in Hi. destruct C4 as [C4 | [_ C4]]; [rewrite C4; apply Hip; exact Hi | rewrite (C4 Hst) in Hi; discriminate Hi].
+  - intros Hi. apply Hii. congruence.
+  - destruct Hsc as (sid' & fl0 & vs0 & E1 & E2 & E3). exists sid', fl0, vs0. split; [exact E1|]. split; [congruence | exact E3].
+Qed.
+
+Lemma Inv_csame s s' os : csame s s' -> Inv s os -> Inv s' os.
+Proof.
+  intros ((A1 & A2 & A3 & A4 & A5 & A6 & A7 & A8 & A9 & A10) & C1 & C2 & C3 & C4 & C5 & C6).
+  apply Inv_ext; try assumption; try (left; assumption).
+  - unfold nsame. repeat split; assumption.
+  - intros a0 acur aend H. rewrite A4. exact H.
+  - intros H. rewrite A4. exact H.
+Qed.
 
 (* ------------------------------------------------------------------ moving the position *)
 Ltac invp H := match type of H with Some (_, _) = Some (?a, ?b) => injection H; clear H; intros; subst a b end.
@@ -282,16 +429,49 @@ Definition mkpos pre c infl fl u p stt a0 acur aend d0 dc : pos :=
 Lemma forallb_snoc {A} (f : A -> bool) l x : forallb f l = true -> f x = true -> forallb f (l ++ [x]) = true.
 Proof. intros H1 H2. rewrite forallb_app, H1. cbn. rewrite H2. reflexivity. Qed.
 
+Ltac pos_split := split; [|split; [|split; [|split; [|split; [|split; [|split; [|split; [|split]]]]]]]].
+
+Definition NoHold (fl : list fd) : Prop := forallb (fun f => negb (fd_hold f)) fl = true.
+
+Lemma HoldOK_nohold c infl fl : NoHold fl -> HoldOK c infl fl.
+Proof.
+  intros H tops h rest E Hh. exfalso. unfold NoHold in H. rewrite E, forallb_app in H. apply andb_true_iff in H. destruct H as [_ H].
+  cbn in H. rewrite Hh in H. discriminate H.
+Qed.
+Lemma HoldOK_infl c m fl c' infl' : HoldOK c [m] fl -> HoldOK c' infl' fl.
+Proof. intros H tops h rest E Hh. destruct (H tops h rest E Hh) as (_ & Hi & _). discriminate Hi. Qed.
+Lemma HoldOK_nil c infl : HoldOK c infl [].
+Proof. intros tops h rest E. destruct tops; discriminate E. Qed.
+(* a frame that yields a message of the user's plan has no unstarted suspender plan below it *)
+Lemma HoldOK_yield c infl f fl : HoldOK c infl (f :: fl) -> fd_msgs f <> [] -> NoHold fl.
+Proof.
+  intros H Hne. unfold NoHold. apply forallb_forall. intros x Hx. destruct (fd_hold x) eqn:Ex; [|reflexivity]. exfalso.
+  destruct x as [| |h]; try discriminate Ex. cbn in Ex. destruct (hph h) eqn:Eh; try discriminate Ex.
+  apply in_split in Hx. destruct Hx as (l1 & l2 & ->).
+  destruct (H (f :: l1) h l2 eq_refl Eh) as (_ & _ & Hm). rewrite fmsgs_cons in Hm. apply app_eq_nil in Hm. apply Hne, Hm.
+Qed.
+Lemma HoldOK_cons_quiet c infl f fl : HoldOK c infl fl -> fd_msgs f = [] -> fd_hold f = false -> HoldOK c infl (f :: fl).
+Proof.
+  intros H Hq Hh tops h rest E Hph. destruct tops as [|t tops]; cbn in E.
+  - injection E as -> _. cbn in Hh. rewrite Hph in Hh. discriminate Hh.
+  - injection E as -> E. destruct (H tops h rest E Hph) as (A & B & C). rewrite fmsgs_cons, Hq, C. auto.
+Qed.
+Lemma HoldOK_tail c infl f fl : HoldOK c infl (f :: fl) -> fd_msgs f = [] -> HoldOK c infl fl.
+Proof.
+  intros H Hq tops h rest E Hph. destruct (H (f :: tops) h rest) as (A & B & C); [rewrite E; reflexivity | exact Hph |].
+  rewrite fmsgs_cons, Hq in C. auto.
+Qed.
+
 (* a body message comes off the front of what the stack will yield *)
 Lemma PosOK_body q fl' u' p' stt m :
-  PosOK q -> p_infl q = [] -> pend q = m :: (List.concat fl' ++ u') -> bodym m = true ->
-  follows u' p' -> forallb (forallb bodym) fl' = true ->
+  PosOK q -> p_infl q = [] -> pend q = m :: (fmsgs fl' ++ u') -> bodym m = true ->
+  follows u' p' -> forallb bodym (fmsgs fl') = true -> forallb fd_ok fl' = true -> NoHold fl' ->
   exists acur' dm,
     astep (p_acur q) m = Some (acur', dm) /\ run_rel acur' (p_aend q) /\ incl (doc_events dm) (doc_events SD) /\
     PosOK (mkpos (p_pre q) (p_c q ++ [m]) [] fl' u' p' stt (p_a0 q) acur' (p_aend q) (p_d0 q) (p_dc q ++ dm)) /\
     PosOK (mkpos (p_pre q) (p_c q) [m] fl' u' p' stt (p_a0 q) (p_acur q) (p_aend q) (p_d0 q) (p_dc q)).
 Proof.
-  intros HP Hin Hpe Hbm Hfo Hfb. pose proof (pos_facts q HP) as (W0 & Wc & We & Hrr & Hn & Hds & Hfr & drest & Hrest & HSD).
+  intros HP Hin Hpe Hbm Hfo Hfb Hok Hnh. pose proof (pos_facts q HP) as (W0 & Wc & We & Hrr & Hn & Hds & Hfr & drest & Hrest & HSD).
   destruct HP as (P1 & P2 & P3 & P4 & (dseg & P5) & P6 & P7 & P8).
   rewrite Hin, Hpe in *. cbn [app] in *.
   destruct (arun_cons _ _ _ _ _ Hrest) as (acur' & dm & dr & Hst & Hr' & ->).
@@ -304,15 +484,17 @@ Proof.
   { apply arun_app. exists (p_acur q), (p_dc q), dm. split; [exact P4|]. split; [|reflexivity].
     rewrite arun_one, Hst, app_nil_r. reflexivity. }
   split.
-  - unfold PosOK, mkpos, pend; cbn. repeat split; try assumption.
+  - unfold PosOK, mkpos, pend; cbn. pos_split; try assumption; try reflexivity.
     + rewrite P1, <- !app_assoc. reflexivity.
     + eexists. rewrite <- app_assoc. cbn. apply arun_app. exists (p_acur q), (p_dc q), (dm ++ d3). split; [exact P4|]. split; [|reflexivity].
       cbn. rewrite Hst, E4. reflexivity.
     + apply forallb_snoc; assumption.
-  - unfold PosOK, mkpos, pend; cbn. repeat split; try assumption.
+    + apply HoldOK_nohold. exact Hnh.
+  - unfold PosOK, mkpos, pend; cbn. pos_split; try assumption; try reflexivity.
     + eexists. apply arun_app. exists (p_acur q), (p_dc q), (dm ++ d3). split; [exact P4|]. split; [|reflexivity].
       cbn. rewrite Hst, E4. reflexivity.
     + rewrite Hbm. reflexivity.
+    + apply HoldOK_nohold. exact Hnh.
 Qed.
 
 (* the command that was waiting on a future completes *)
@@ -323,20 +505,21 @@ Lemma PosOK_cmd q m :
     PosOK (mkpos (p_pre q) (p_c q ++ [m]) [] (p_fl q) (p_u q) (p_p q) (p_started q) (p_a0 q) acur' (p_aend q) (p_d0 q) (p_dc q ++ dm)).
 Proof.
   intros HP Hin. pose proof (pos_facts q HP) as (W0 & Wc & We & Hrr & Hn & Hds & Hfr & drest & Hrest & HSD).
-  destruct HP as (P1 & P2 & P3 & P4 & (dseg & P5) & P6 & P7 & P8).
+  destruct HP as (P1 & P2 & P3 & P4 & (dseg & P5) & P6 & P7 & P8a & P8b & P8c).
   rewrite Hin in *. cbn [app] in *.
   destruct (arun_cons _ _ _ _ _ Hrest) as (acur' & dm & dr & Hst & Hr' & ->).
   apply arun_app in P5. destruct P5 as (a1 & d1 & d2 & E1 & E2 & ->). rewrite P4 in E1. invp E1.
   destruct (arun_cons _ _ _ _ _ E2) as (a1 & d1 & d3 & E3 & E4 & ->). rewrite Hst in E3. invp E3.
   destruct (arun_body _ _ _ _ _ _ (bodypre_all _) E4) as (_ & _ & _ & Hrel).
   exists acur', dm. split; [exact Hst|]. split; [exact Hrel|]. split; [rewrite HSD, !doc_events_app; apply incl_mid|].
-  unfold PosOK, mkpos, pend; cbn. fold (pend q). repeat split; try assumption.
+  unfold PosOK, mkpos, pend; cbn. fold (pend q). pos_split; try assumption; try reflexivity.
   - rewrite P1, <- !app_assoc. reflexivity.
   - apply arun_app. exists (p_acur q), (p_dc q), dm. split; [exact P4|]. split; [|reflexivity].
     rewrite arun_one, Hst, app_nil_r. reflexivity.
   - eexists. rewrite <- app_assoc. cbn. apply arun_app. exists (p_acur q), (p_dc q), (dm ++ d3). split; [exact P4|]. split; [|reflexivity].
     cbn. rewrite Hst, E4. reflexivity.
   - cbn in P7. apply andb_true_iff in P7. apply forallb_snoc; [assumption | apply P7].
+  - eapply HoldOK_infl. exact P8c.
 Qed.
 
 (* a head message comes from the user plan *)
@@ -350,7 +533,7 @@ Lemma PosOK_head q u' p' stt m :
 Proof.
   intros HP Hin Hfl Hu Hh Hfo. pose proof (pos_facts q HP) as (W0 & Wc & We & Hrr & Hn & Hds & Hfr & drest & Hrest & HSD).
   destruct HP as (P1 & P2 & P3 & P4 & (dseg & P5) & P6 & P7 & P8).
-  unfold pend in *. rewrite Hin, Hfl, Hu in *. cbn [app List.concat] in *.
+  unfold pend in *. rewrite Hin, Hfl, Hu in *. change (fmsgs (@nil fd)) with (@nil msg) in *. cbn [app] in *.
   destruct (arun_cons _ _ _ _ _ Hrest) as (acur' & dm & dr & Hst & Hr' & ->).
   assert (Hnb : bodym m = false) by (apply head_not_body; exact Hh).
   cbn [bodypre] in P5. rewrite Hnb, app_nil_r in P5. rewrite P4 in P5. injection P5 as Hae Hds'.
@@ -365,35 +548,101 @@ Proof.
     pose proof (astep_mrun _ _ _ _ _ _ Hst) as Hrun.
     unfold PointSpec.astep in Hst. rewrite Hrun, Nat.eqb_refl, Ec, Hf in Hst. cbn [negb] in Hst.
     destruct (a_run (p_acur q)); discriminate. }
-  unfold PosOK, mkpos, pend; cbn. repeat split; try assumption.
+  unfold PosOK, mkpos, pend; cbn. pos_split; try assumption; try reflexivity.
   - rewrite P1, <- !app_assoc. reflexivity.
   - apply arun_app. exists (p_a0 q), (p_d0 q), (p_dc q ++ dm). split; [exact P3|]. split; [|reflexivity].
     apply arun_app. exists (p_acur q), (p_dc q), dm. split; [exact P4|]. split; [|reflexivity].
     rewrite arun_one, Hst, app_nil_r. reflexivity.
   - eexists. exact E1.
+  - apply HoldOK_nil.
 Qed.
 
-(* resume() / the rewind: everything done since the last checkpoint-like message is to be done again *)
-Lemma PosOK_rewind q :
-  PosOK q ->
-  PosOK (mkpos (p_pre q) [] [] ((p_c q ++ p_infl q) :: p_fl q) (p_u q) (p_p q) (p_started q)
+(* a rewind (resume(), `_start_suspender`): everything done since the last checkpoint-like message is to be done
+   again, by the new frames [top] pushed on the stack ([fd_msgs] of them = what was done) *)
+Lemma PosOK_rewound q tops rest :
+  PosOK q -> fmsgs tops ++ fmsgs rest = (p_c q ++ p_infl q) ++ fmsgs (p_fl q) ->
+  forallb fd_ok (tops ++ rest) = true -> HoldOK [] [] (tops ++ rest) ->
+  PosOK (mkpos (p_pre q) [] [] (tops ++ rest) (p_u q) (p_p q) (p_started q)
                (p_a0 q) (p_a0 q) (p_aend q) (p_d0 q) []).
 Proof.
-  intros (P1 & P2 & P3 & P4 & (dseg & P5) & P6 & P7 & P8).
-  unfold PosOK, mkpos, pend; cbn. fold (pend q). repeat split; try assumption.
-  - rewrite P1. unfold pend. rewrite <- !app_assoc. reflexivity.
-  - exists dseg. rewrite <- app_assoc, bodypre_app_body by (rewrite forallb_app, P6, P7; reflexivity).
-    rewrite <- app_assoc. exact P5.
-  - rewrite forallb_app, P6, P7, P8. reflexivity.
+  intros (P1 & P2 & P3 & P4 & (dseg & P5) & P6 & P7 & P8a & P8b & P8c) Hm Hok Hho.
+  unfold PosOK, mkpos, pend; cbn. pos_split; try assumption; try reflexivity.
+  - rewrite P1. unfold pend. rewrite fmsgs_app, Hm, <- !app_assoc. reflexivity.
+  - exists dseg. rewrite fmsgs_app, Hm, <- !app_assoc.
+    rewrite bodypre_app_body by exact P6. rewrite bodypre_app_body by exact P7. unfold pend in P5. exact P5.
+  - rewrite fmsgs_app, Hm, !forallb_app, P6, P7, P8a. reflexivity.
 Qed.
 
-(* an exhausted replay list is popped *)
-Lemma PosOK_pop q fl' :
-  PosOK q -> p_fl q = [] :: fl' ->
+Lemma PosOK_rewind q :
+  PosOK q ->
+  PosOK (mkpos (p_pre q) [] [] (FDL (p_c q ++ p_infl q) :: p_fl q) (p_u q) (p_p q) (p_started q)
+               (p_a0 q) (p_a0 q) (p_aend q) (p_d0 q) []).
+Proof.
+  intros HP. pose proof HP as (_ & _ & _ & _ & _ & _ & _ & P8a & P8b & P8c).
+  apply (PosOK_rewound q [FDL (p_c q ++ p_infl q)] (p_fl q) HP).
+  - unfold fmsgs. cbn. rewrite app_nil_r. reflexivity.
+  - cbn. exact P8b.
+  - intros tops h rest E Hph. destruct tops as [|t tops]; cbn in E; [discriminate E|]. injection E as <- E.
+    destruct (P8c tops h rest E Hph) as (A & B & C). rewrite fmsgs_cons, C. cbn. rewrite A, B. auto.
+Qed.
+
+(* `_start_suspender` ran: the suspender plan (not started) carries what is to be done again *)
+Lemma PosOK_susp q sid rest :
+  PosOK q -> p_fl q = FDS sid false :: rest ->
+  PosOK (mkpos (p_pre q) [] [] (FDH (mkhelper P H0 sid true (p_c q ++ p_infl q)) :: FDS sid true :: rest) (p_u q) (p_p q) (p_started q)
+               (p_a0 q) (p_a0 q) (p_aend q) (p_d0 q) []).
+Proof.
+  intros HP Hfl. pose proof HP as (_ & _ & _ & _ & _ & _ & _ & P8a & P8b & P8c). rewrite Hfl in *.
+  apply (PosOK_rewound q [FDH (mkhelper P H0 sid true (p_c q ++ p_infl q)); FDS sid true] rest HP).
+  - rewrite Hfl. unfold fmsgs. cbn. rewrite app_nil_r. reflexivity.
+  - cbn. cbn in P8b. exact P8b.
+  - intros tops h rest' E Hph. destruct tops as [|t tops]; cbn in E.
+    + auto.
+    + injection E as <- E. destruct tops as [|t2 tops]; cbn in E; [discriminate E|]. injection E as <- E.
+      destruct (P8c (FDS sid false :: tops) h rest') as (A & B & C); [rewrite E; reflexivity | exact Hph |].
+      rewrite !fmsgs_cons in *. cbn in *. rewrite A, B, C. auto.
+Qed.
+
+(* a suspension request pushes its single-message plan *)
+Lemma PosOK_push q sid :
+  PosOK q ->
+  PosOK (mkpos (p_pre q) (p_c q) (p_infl q) (FDS sid false :: p_fl q) (p_u q) (p_p q) (p_started q)
+               (p_a0 q) (p_acur q) (p_aend q) (p_d0 q) (p_dc q)).
+Proof.
+  intros (P1 & P2 & P3 & P4 & (dseg & P5) & P6 & P7 & P8a & P8b & P8c).
+  unfold PosOK, mkpos, pend in *; cbn. pos_split; try assumption; try reflexivity.
+  - exists dseg. exact P5.
+  - apply HoldOK_cons_quiet; [exact P8c | reflexivity | reflexivity].
+Qed.
+
+(* the frame on top changes but will re-issue the same messages *)
+Lemma PosOK_retop q f f' rest :
+  PosOK q -> p_fl q = f :: rest -> fd_msgs f' = fd_msgs f -> fd_ok f' = true -> (fd_hold f' = true -> fd_hold f = true) ->
+  PosOK (mkpos (p_pre q) (p_c q) (p_infl q) (f' :: rest) (p_u q) (p_p q) (p_started q)
+               (p_a0 q) (p_acur q) (p_aend q) (p_d0 q) (p_dc q)).
+Proof.
+  intros (P1 & P2 & P3 & P4 & (dseg & P5) & P6 & P7 & P8a & P8b & P8c) Hfl Hm Hok Hh.
+  unfold PosOK, mkpos, pend in *; cbn. rewrite Hfl in *. rewrite !fmsgs_cons in *. rewrite Hm. pos_split; try assumption; try reflexivity.
+  - exists dseg. exact P5.
+  - cbn in P8b. apply andb_true_iff in P8b. cbn. rewrite Hok. apply P8b.
+  - intros tops h rest' E Hph. destruct tops as [|t tops]; cbn in E.
+    + injection E as -> _. assert (Hf : fd_hold f = true) by (apply Hh; cbn; rewrite Hph; reflexivity).
+      destruct f as [| |h0]; try discriminate Hf. cbn in Hf. destruct (hph h0) eqn:E0; try discriminate Hf.
+      destruct (P8c [] h0 rest eq_refl E0) as (A & B & _). auto.
+    + injection E as <- E. destruct (P8c (f :: tops) h rest') as (A & B & C); [rewrite E; reflexivity | exact Hph |].
+      rewrite fmsgs_cons in *. rewrite Hm. auto.
+Qed.
+
+(* a frame that has nothing left returns and is popped *)
+Lemma PosOK_pop q f fl' :
+  PosOK q -> p_fl q = f :: fl' -> fd_msgs f = [] ->
   PosOK (mkpos (p_pre q) (p_c q) (p_infl q) fl' (p_u q) (p_p q) (p_started q) (p_a0 q) (p_acur q) (p_aend q) (p_d0 q) (p_dc q)).
 Proof.
-  intros (P1 & P2 & P3 & P4 & (dseg & P5) & P6 & P7 & P8) Hfl.
-  unfold PosOK, mkpos, pend in *; cbn. rewrite Hfl in *. cbn in *. repeat split; try assumption. exists dseg. exact P5.
+  intros (P1 & P2 & P3 & P4 & (dseg & P5) & P6 & P7 & P8a & P8b & P8c) Hfl Hq.
+  unfold PosOK, mkpos, pend in *; cbn. rewrite Hfl in *. rewrite !fmsgs_cons, Hq in *. cbn [app] in *. pos_split; try assumption; try reflexivity.
+  - exists dseg. exact P5.
+  - cbn in P8b. apply andb_true_iff in P8b. apply P8b.
+  - eapply HoldOK_tail; eassumption.
 Qed.
 
 (* the plan is exhausted *)
@@ -404,7 +653,6 @@ Proof.
   intros HP Hin Hfl Hu. pose proof (pos_facts q HP) as (W0 & Wc & We & Hrr & Hn & Hds & Hfr & drest & Hrest & HSD).
   unfold pend in Hrest. rewrite Hin, Hfl, Hu in Hrest. cbn in Hrest. injection Hrest as Ha Hd. subst drest. rewrite !app_nil_r in HSD. auto.
 Qed.
-
 
 (* ------------------------------------------------------------------ documents *)
 Lemma Docs_body d0 dc dm os o (q q' : pos) :
@@ -488,16 +736,20 @@ Ltac kdestr :=
              destruct H as (K1 & K2 & K3 & K4 & K5 & K6 & K7 & K8 & K9 & K10 & K11 & K12 & K13)
          end.
 
+Lemma new_none_cons fl v vs : not_new fl -> new_none (List.tl fl) vs -> new_none fl (v :: vs).
+Proof. destruct fl as [|[l|sid [|]|h] fl]; cbn; intros H1 H2; try exact H2; try exact I. contradiction. Qed.
+
 Lemma process_msg (s : st) os q v rest vs top tl m f' po fl' u' p' stt :
   Core q s os -> state s = Running -> pc s = PcSleep0 -> must_cancel s = false -> permit s = true -> p_infl q = [] ->
   resps s = RVal v :: rest -> rest = map RVal vs -> List.length vs = List.length fl' ->
-  plans s = top :: tl -> map (@FList P) fl' ++ [FUser pid p' stt] = f' :: tl ->
+  plans s = top :: tl -> map fd_frame fl' ++ [FUser pid p' stt] = f' :: tl ->
   frame_resume top (Send v) = (Yielded m f', po) -> po_ok po ->
-  pend q = m :: (List.concat fl' ++ u') -> follows u' p' -> forallb (forallb bodym) fl' = true ->
+  pend q = m :: (fmsgs fl' ++ u') -> follows u' p' -> forallb bodym (fmsgs fl') = true -> forallb fd_ok fl' = true ->
+  NoHold fl' -> forallb (fun f => negb (fd_win f)) fl' = true -> not_new fl' -> new_none (List.tl fl') vs ->
   (bodym m = true \/ (is_head (mcmd m) = true /\ p_fl q = [] /\ fl' = [] /\ p_u q = m :: u')) ->
   exists s' o, task_step s = (s', o) /\ (reads_ok rdm (last_msg None os) o = true -> Inv s' (os ++ o)).
 Proof.
-  intros (HP & HLk & HD) Hst Hpc Hmc Hpm Hin Hrs Hrest Hlen Hpl Hfr' Hfr Hpo Hpe Hfo Hfb Hkind.
+  intros (HP & HLk & HD) Hst Hpc Hmc Hpm Hin Hrs Hrest Hlen Hpl Hfr' Hfr Hpo Hpe Hfo Hfb Hfok Hnh Hnw Hnot Hnn Hkind.
   destruct HLk as (L1 & L2 & L3 & L4 & L5 & L6 & L7 & L8 & L9 & L10).
   rewrite Hin, app_nil_r in L1.
   set (sA := RE.replace_top P D (RE.set_resps P D (RE.set_must_cancel P D s false) rest) f').
@@ -514,7 +766,7 @@ Proof.
   pose proof (pos_facts q HP) as (W0 & Wc & We & Hrr & Hn & Hds & Hfresh & _).
   destruct Hkind as [Hbm | (Hh & Hfl & Hfl' & Hu)].
   - (* a body message *)
-    destruct (PosOK_body q fl' u' p' stt m HP Hin Hpe Hbm Hfo Hfb) as (acur' & dm & Hstep & Hrel & Hincl & HP1 & HP2).
+    destruct (PosOK_body q fl' u' p' stt m HP Hin Hpe Hbm Hfo Hfb Hfok Hnh) as (acur' & dm & Hstep & Hrel & Hincl & HP1 & HP2).
     edestruct exec_body with (s := pre_exec P D sA m) (m := m) (a0 := p_a0 q) (acur := p_acur q) (aend := p_aend q)
                              (acur' := acur') (dm := dm) as
         (s3 & cr & o3 & Hex & K3 & C3 & U3 & Q3 & F3 & S3 & Hcr); try eassumption.
@@ -524,7 +776,7 @@ Proof.
     destruct cr as [[v'|e]|k]; [| contradiction |].
     + (* the command completed *)
       eexists. eexists. split.
-      { eapply task_msg_done; try eassumption. eapply keeps_trans; eassumption. }
+      { eapply task_msg_done; try eassumption; [apply in_class_plain; exact Hcl | apply keeps_keeps5; eapply keeps_trans; eassumption]. }
       intros Hreads.
       destruct (out_done po m o3 v' Hpo Q3) as (O1 & O2 & O3 & O4).
       specialize (Hcr (O4 _ Hreads)).
@@ -532,25 +784,26 @@ Proof.
       eapply I_rs with (q := mkpos (p_pre q) (p_c q ++ [m]) [] fl' u' p' stt (p_a0 q) acur' (p_aend q) (p_d0 q) (p_dc q ++ dm));
         simp_st; try congruence.
       * split; [exact HP1|]. split.
-        -- unfold Link, mkpos; cbn [p_c p_infl p_fl p_p p_started p_acur p_a0 p_aend]. simp_st. rewrite app_nil_r.
-           repeat split; try congruence.
+        -- unfold Link, LinkR, mkpos; cbn [p_c p_infl p_fl p_p p_started p_acur p_a0 p_aend]. simp_st. rewrite app_nil_r.
+           repeat split; try congruence; try assumption.
         -- eapply Docs_body with (q := q) (dm := dm); try reflexivity; try eassumption.
            ++ rewrite O1. exact F3.
            ++ rewrite O2. exact S3.
-      * reflexivity.
-      * exists (v' :: vs). cbn [map List.length]. split; [simp_st; congruence | cbn [p_fl mkpos]; lia].
+      * left; reflexivity.
+      * exists (v' :: vs). cbn [map List.length]. split; [simp_st; congruence|]. split; [cbn [p_fl mkpos]; lia|].
+        cbn [p_fl mkpos]. apply new_none_cons; assumption.
     + (* the command waits on a future *)
       destruct Hcr as (Hkm & Hbs).
       eexists. eexists. split.
-      { eapply task_msg_susp; try eassumption. }
+      { eapply task_msg_susp; try eassumption. apply in_class_plain; exact Hcl. }
       intros _.
       destruct (out_susp po m o3 Hpo Q3) as (O1 & O2 & O3 & O4).
       kdestr. subst sA. simp_st. rewrite Hpl in *. cbn [List.tl] in *.
       eapply I_rc with (q := mkpos (p_pre q) (p_c q) [m] fl' u' p' stt (p_a0 q) (p_acur q) (p_aend q) (p_d0 q) (p_dc q)) (k := k) (m := m);
         simp_st; try congruence.
       * split; [exact HP2|]. split.
-        -- unfold Link, mkpos; cbn [p_c p_infl p_fl p_p p_started p_acur p_a0 p_aend]. simp_st.
-           repeat split; try congruence.
+        -- unfold Link, LinkR, mkpos; cbn [p_c p_infl p_fl p_p p_started p_acur p_a0 p_aend]. simp_st.
+           repeat split; try congruence; try assumption.
         -- eapply Docs_body with (q := q) (dm := []); try reflexivity; try eassumption.
            ++ cbn [mkpos p_dc]. rewrite app_nil_r. reflexivity.
            ++ rewrite O1, F3, (astep_susp_docs _ _ _ _ _ Hstep Hkm). reflexivity.
@@ -558,10 +811,11 @@ Proof.
            ++ intros x [].
       * reflexivity.
       * exact Hkm.
-      * exists vs. split; [simp_st; congruence | cbn [p_fl mkpos]; lia].
+      * exists vs. split; [simp_st; congruence|]. split; [cbn [p_fl mkpos]; lia | exact Hnn].
       * rewrite last_msg_app. apply O4.
+      * exact Hnot.
   - (* a head message *)
-    subst fl'. cbn [List.concat app map] in *.
+    subst fl'. change (fmsgs (@nil fd)) with (@nil msg) in *. cbn [app map] in *.
     destruct (PosOK_head q u' p' stt m HP Hin Hfl Hu Hh Hfo) as (Hae & acur' & dm & aend' & Hstep & Hrel & Hincl & Hopen & HP3).
     rewrite Hae in L4.
     edestruct exec_head with (s := pre_exec P D sA m) (m := m) (a0 := p_a0 q) (acur := p_acur q) (acur' := acur')
@@ -575,34 +829,35 @@ Proof.
     set (q3 := mkpos (p_pre q ++ p_c q ++ [m]) [] [] [] u' p' stt acur' acur' aend' (p_d0 q ++ p_dc q ++ dm) []).
     destruct Hcr as [(v' & ->) | (-> & Hck)].
     + eexists. eexists. split.
-      { eapply task_msg_done; try eassumption. eapply keeps_trans; eassumption. }
+      { eapply task_msg_done; try eassumption; [apply in_class_plain; exact Hcl | apply keeps_keeps5; eapply keeps_trans; eassumption]. }
       intros Hreads.
       destruct (out_done po m o3 v' Hpo Q3) as (O1 & O2 & O3 & O4).
       kdestr. subst sA. simp_st. rewrite Hpl in *. cbn [List.tl] in *.
       eapply I_rs with (q := q3); simp_st; try congruence.
       * split; [exact HP3|]. split.
-        -- unfold Link, q3, mkpos; cbn [p_c p_infl p_fl p_p p_started p_acur p_a0 p_aend]. simp_st.
-           cbn [map app] in *. repeat split; try congruence.
+        -- unfold Link, LinkR, q3, mkpos; cbn [p_c p_infl p_fl p_p p_started p_acur p_a0 p_aend]. simp_st.
+           cbn [map app] in *. repeat split; try congruence; try reflexivity.
         -- eapply Docs_head with (q := q) (dm := dm); try reflexivity; try eassumption.
            ++ rewrite O1. exact F3.
            ++ rewrite O2. exact S3.
-      * reflexivity.
-      * exists (v' :: vs). cbn [map List.length]. split; [simp_st; congruence | cbn [p_fl q3 mkpos List.length] in *; lia].
+      * left; reflexivity.
+      * exists (v' :: vs). cbn [map List.length]. split; [simp_st; congruence|]. split; [cbn [p_fl q3 mkpos List.length] in *; lia | exact I].
     + (* a checkpoint reached while a deferred pause is pending: the grace sleep *)
       eexists. eexists. split.
-      { eapply task_msg_susp; try eassumption. }
+      { eapply task_msg_susp; try eassumption. apply in_class_plain; exact Hcl. }
       intros _.
       destruct (out_susp po m o3 Hpo Q3) as (O1 & O2 & O3 & O4).
       kdestr. subst sA. simp_st. rewrite Hpl in *. cbn [List.tl] in *.
       eapply I_rk with (q := q3); simp_st; try congruence.
       * split; [exact HP3|]. split.
-        -- unfold Link, q3, mkpos; cbn [p_c p_infl p_fl p_p p_started p_acur p_a0 p_aend]. simp_st.
-           cbn [map app] in *. repeat split; try congruence.
+        -- unfold Link, LinkR, q3, mkpos; cbn [p_c p_infl p_fl p_p p_started p_acur p_a0 p_aend]. simp_st.
+           cbn [map app] in *. repeat split; try congruence; try reflexivity.
         -- eapply Docs_head with (q := q) (dm := dm); try reflexivity; try eassumption.
            ++ rewrite O1. exact F3.
            ++ rewrite O2. exact S3.
       * reflexivity.
-      * exists vs. split; [simp_st; congruence | cbn [p_fl q3 mkpos List.length] in *; lia].
+      * exists vs. split; [simp_st; congruence|]. split; [cbn [p_fl q3 mkpos List.length] in *; lia | destruct vs; exact I].
+      * exact I.
 Qed.
 
 
@@ -612,45 +867,194 @@ Hypothesis Hfol : follows L (plan_of pid).
 Definition StepOK (s : st) (os : list obs) (r : st * list obs) : Prop :=
   reads_ok rdm (last_msg None os) (snd r) = true -> Inv (fst r) (os ++ snd r).
 
-Lemma neutral_intro o : final_events o = [] -> stops o = [] -> no_raise o = true -> (forall cur, last_msg cur o = cur) -> neutral o.
-Proof. intros. repeat split; assumption. Qed.
 
-Lemma stack_shape (fl : list (list msg)) (f : frame P) :
-  exists f2 tl, map (@FList P) fl ++ [f] = f2 :: tl /\ List.length tl = List.length fl.
+Lemma stack_shape (fl : list fd) (f : frame P) :
+  exists f2 tl, map fd_frame fl ++ [f] = f2 :: tl /\ List.length tl = List.length fl.
 Proof.
   destruct fl as [|l fl]; cbn.
   - exists f, []. auto.
-  - exists (FList l), (map (@FList P) fl ++ [f]). split; [reflexivity|]. rewrite app_length, map_length. cbn. lia.
+  - exists (fd_frame l), (map fd_frame fl ++ [f]). split; [reflexivity|]. rewrite app_length, map_length. cbn. lia.
 Qed.
 
-Lemma step_task_rs (s : st) os q :
-  Core q s os -> state s = Running -> pc s = PcSleep0 -> must_cancel s = false -> permit s = true -> p_infl q = [] ->
-  RespsOK (S (List.length (p_fl q))) s -> StepOK s os (task_step s).
+Lemma nowin_tl f fl : forallb (fun f => negb (fd_win f)) (f :: fl) = true -> forallb (fun f => negb (fd_win f)) fl = true.
+Proof. cbn. intros H. apply andb_true_iff in H. apply H. Qed.
+
+(* a frame with nothing left to re-issue returns and is popped *)
+Lemma step_rs_pop (s : st) os q f fl1 v vs v' :
+  Core q s os -> state s = Running -> pc s = PcSleep0 -> must_cancel s = false -> permit s = true ->
+  p_infl q = [] -> p_fl q = f :: fl1 -> fd_msgs f = [] -> frame_resume (fd_frame f) (Send v) = (Returned v', []) ->
+  resps s = map RVal (v :: vs) -> List.length vs = S (List.length fl1) -> new_none fl1 vs ->
+  StepOK s os (task_step s).
 Proof.
-  intros HC Hst Hpc Hmc Hpm Hin (vs & Hrs & Hlen). pose proof HC as (HP & HLk & HD).
-  pose proof HLk as (L1 & L2 & L3 & L4 & L5 & L6 & L7 & L8 & L9 & L10).
-  destruct vs as [|v vs]; [discriminate Hlen|]. cbn [map] in Hrs. cbn [List.length] in Hlen.
-  pose proof (pos_facts q HP) as (W0 & Wc & We & Hrr & Hn & Hds & Hfresh & drest & Hrest & HSD).
-  pose proof HP as (P1 & P2 & P3 & P4 & P5 & P6 & P7 & P8).
+  intros (HP & HLk & HD) Hst Hpc Hmc Hpm Hin Efl Hq Hfr Hrs Hlen Hnn.
+  pose proof HLk as (L1 & L2 & L3 & L4 & L5 & L6 & L7 & L8 & L9 & L10). rewrite Efl in L2, L7. cbn [map app] in L2.
+  destruct (stack_shape fl1 (FUser pid (p_p q) (p_started q))) as (f2 & tl & Hsh & Hlt). rewrite Hsh in L2.
   unfold StepOK.
-  destruct (p_fl q) as [|l1 fl1] eqn:Efl.
-  - cbn [map app] in L2. destruct (p_u q) as [|m u'] eqn:Eu.
-    + (* the plan returns *)
-      cbn [PointSpec.follows] in P2. destruct vs; [|discriminate Hlen]. cbn [map] in Hrs.
+  rewrite (task_pop P presume plan_of D dev s v (map RVal vs) (fd_frame f) f2 tl v' Hpc Hmc Hst Hpm L6 L5 Hrs L2 Hfr)
+    by (rewrite map_length; lia).
+  cbn [fst snd]. intros _.
+  apply Inv_neutral; [apply neutral_intro; reflexivity|].
+  eapply I_rs with (q := mkpos (p_pre q) (p_c q) (p_infl q) fl1 (p_u q) (p_p q) (p_started q) (p_a0 q) (p_acur q) (p_aend q) (p_d0 q) (p_dc q));
+    simp_st; try congruence.
+  - split; [eapply PosOK_pop; eassumption|]. split; [|exact HD].
+    unfold Link, LinkR, mkpos; cbn [p_c p_infl p_fl p_p p_started p_acur p_a0 p_aend]. simp_st. rewrite L2, Hsh. cbn [List.tl].
+    repeat split; try assumption. eapply nowin_tl; exact L7.
+  - left. exact Hin.
+  - exists vs. split; [reflexivity|]. split; [cbn [p_fl mkpos]; lia | exact Hnn].
+Qed.
+
+(* observations of one processed engine-made message: no documents, nothing raised *)
+Lemma ctl_out_quiet (m : msg) o (r : val) tail :
+  forallb devonly o = true -> (tail = [OTask WSleep0] \/ tail = [OTask WFuture]) ->
+  let oo := ((([] ++ []) ++ [OMsg m] ++ ([] ++ o) ++ [OResp (RVal r)]) ++ []) ++ tail in
+  final_events oo = [] /\ stops oo = [] /\ no_raise oo = true.
+Proof.
+  intros Q Ht. cbv zeta. cbn [app]. rewrite !app_nil_r.
+  destruct (devonly_final_events _ Q) as [F1 F2]. pose proof (devdoc_no_raise _ (devonly_devdoc _ Q)) as F3.
+  rewrite <- !app_assoc. cbn [app].
+  change (OMsg m :: o ++ OResp (RVal r) :: tail) with ([OMsg m] ++ o ++ OResp (RVal r) :: tail).
+  rewrite !final_events_app, !stops_app, !no_raise_app, F1, F2, F3.
+  destruct Ht as [-> | ->]; repeat split; reflexivity.
+Qed.
+
+(* the suspender's single-message plan starts: `_start_suspender` *)
+Lemma step_rs_start (s : st) os q sid fl1 vs :
+  Core q s os -> state s = Running -> pc s = PcSleep0 -> must_cancel s = false -> permit s = true ->
+  p_fl q = FDS sid false :: fl1 ->
+  resps s = map RVal (VNone :: vs) -> List.length vs = S (List.length fl1) -> new_none fl1 vs ->
+  StepOK s os (task_step s).
+Proof.
+  intros (HP & HLk & HD) Hst Hpc Hmc Hpm Efl Hrs Hlen Hnn.
+  pose proof HLk as (L1 & L2 & L3 & L4 & L5 & L6 & L7 & L8 & L9 & L10). rewrite Efl in L2, L7. cbn [map app fd_frame] in L2.
+  pose proof (pos_facts q HP) as (W0 & Wc & We & Hrr & Hn & Hds & Hfresh & _).
+  destruct (task_start_suspender P presume plan_of D dev Hdev s (map RVal vs) (map fd_frame fl1 ++ [FUser pid (p_p q) (p_started q)])
+              sid (p_c q ++ p_infl q) Hpc Hmc Hst Hpm L6 L5 Hrs L2) as (s3 & o & E & S3 & Q3);
+    [rewrite map_length, app_length, map_length; cbn; lia | eapply nobintr_BR; exact L4 | exact L1 |].
+  cbv zeta in E. unfold StepOK. rewrite E. cbn [fst snd]. intros _.
+  destruct (ctl_out_quiet (smsg sid) o VNone [OTask WSleep0] Q3 (or_introl eq_refl)) as (O1 & O2 & O3). cbv zeta in O1, O2, O3.
+  pose proof (dsame_nsame _ _ S3) as N3. destruct S3 as ((K1 & K2 & K3 & K4 & K5 & K6 & K7 & K8 & K9 & K10 & K11 & K12 & K13) & C1 & C2 & C3).
+  destruct N3 as (A1 & A2 & A3 & A5 & A6 & A7 & A8 & A9 & A10). simp_st. rewrite L2 in *. cbn [List.tl] in *.
+  set (q' := mkpos (p_pre q) [] [] (FDH (mkhelper P H0 sid true (p_c q ++ p_infl q)) :: FDS sid true :: fl1) (p_u q) (p_p q) (p_started q)
+                   (p_a0 q) (p_a0 q) (p_aend q) (p_d0 q) []).
+  assert (HBR : BR (bundlers (if Nat.eqb (List.length (p_c q ++ p_infl q)) 0 then RE.set_cache P D s3 (Some [])
+                              else RE.map_bundlers P D b_rewind (RE.set_cache P D s3 (Some [])))) (p_a0 q) (p_a0 q) (p_aend q)).
+  { destruct (Nat.eqb (List.length (p_c q ++ p_infl q)) 0) eqn:El; simp_st; rewrite C2.
+    - apply Nat.eqb_eq in El. destruct (p_c q) eqn:Ec; [|discriminate El].
+      destruct HP as (_ & _ & _ & P4 & _). rewrite Ec in P4. cbn in P4. injection P4 as Ea _. rewrite <- Ea in L4. exact L4.
+    - eapply rewind_BR; eassumption. }
+  eapply I_rs with (q := q'); simp_st.
+  - split; [apply PosOK_susp; assumption|]. split; [|eapply Docs_quiet with (q := q'); try reflexivity; try eassumption; eapply Docs_rewind with (q := q); try reflexivity; exact HD].
+    unfold Link, LinkR, q', mkpos; cbn [p_c p_infl p_fl p_p p_started p_acur p_a0 p_aend map app fd_frame].
+    destruct (Nat.eqb (List.length (p_c q ++ p_infl q)) 0); simp_st; rewrite L8; repeat split; try congruence;
+      cbn [forallb fd_win mkhelper hph negb andb]; eapply nowin_tl; exact L7.
+  - destruct (Nat.eqb (List.length (p_c q ++ p_infl q)) 0); simp_st; congruence.
+  - reflexivity.
+  - destruct (Nat.eqb (List.length (p_c q ++ p_infl q)) 0); simp_st; congruence.
+  - destruct (Nat.eqb (List.length (p_c q ++ p_infl q)) 0); simp_st; congruence.
+  - left. reflexivity.
+  - exists (VNone :: VNone :: vs). cbn [map List.length p_fl q' mkpos]. split; [destruct (Nat.eqb (List.length (p_c q ++ p_infl q)) 0); simp_st; congruence|].
+    split; [lia | exact Hnn].
+Qed.
+
+
+
+Lemma rewindable_cacheable v : cacheable (CRewindable v) = true.
+Proof. vm_compute. reflexivity. Qed.
+
+Definition rwmsg (b : bool) : msg := RE.mk (CRewindable (Some b)).
+
+(* the suspender plan starts: rewindable(False) -- a checkpoint-like message; the section in which rewinding is off begins *)
+Lemma step_rs_helper0 (s : st) os q h rest v vs :
+  Core q s os -> state s = Running -> pc s = PcSleep0 -> must_cancel s = false -> permit s = true ->
+  p_fl q = FDH h :: rest -> hph h = H0 ->
+  resps s = map RVal (v :: vs) -> List.length vs = S (List.length rest) -> new_none rest vs ->
+  StepOK s os (task_step s).
+Proof.
+  intros (HP & HLk & HD) Hst Hpc Hmc Hpm Efl Hph Hrs Hlen Hnn.
+  pose proof HLk as (L1 & L2 & L3 & L4 & L5 & L6 & L7 & L8 & L9 & L10). rewrite Efl in L2, L7. cbn [map app fd_frame] in L2.
+  pose proof (pos_facts q HP) as (W0 & Wc & We & Hrr & Hn & Hds & Hfresh & _).
+  pose proof HP as (P1 & P2 & P3 & P4 & P5 & P6 & P7 & P8a & P8b & P8c).
+  destruct (P8c [] h rest Efl Hph) as (Ec & Ei & _). rewrite Ec, Ei in *. cbn [app] in L1.
+  cbn in P4. injection P4 as Ea Ed. rewrite <- Ea in *.
+  rewrite Efl in P8b. cbn [forallb fd_ok] in P8b. apply andb_true_iff in P8b. destruct P8b as [Hok Hokr].
+  destruct h as [ph sid pre post was rw]. cbn [hph hpre hpost hwas] in *. subst ph.
+  destruct pre; [discriminate Hok|]. destruct post; [discriminate Hok|]. subst was.
+  set (h' := mkhelper P HRwFalse sid true rw).
+  set (sA := RE.replace_top P D (RE.set_resps P D (RE.set_must_cancel P D s false) (map RVal vs)) (FHelper h')).
+  set (s3 := RE.map_bundlers P D b_snapshot (RE.set_cache P D (RE.set_rewindable P D (RE.set_cache P D sA (Some ([] ++ [rwmsg false]))) false) (Some []))).
+  assert (Hex : exec_cmd (pre_exec P D sA (rwmsg false)) (rwmsg false) = (s3, Done (RVal (VBool false)), [])).
+  { unfold pre_exec. cbn [mobj rwmsg RE.mk mcmd]. subst s3 sA. simp_st. rewrite L1, L8, rewindable_cacheable. cbn [andb].
+    unfold RE.exec_cmd. cbn [mcmd]. simp_st. rewrite L8. cbn [Bool.eqb negb andb]. unfold RE.reset_checkpoint. simp_st. reflexivity. }
+  unfold StepOK.
+  rewrite (task_msg_done P presume plan_of D dev s v (map RVal vs) (FHelper (mkhelper P H0 sid true rw))
+             (map fd_frame rest ++ [FUser pid (p_p q) (p_started q)]) (rwmsg false) (FHelper h') [] s3 (RVal (VBool false)) [] Hpc Hmc Hst Hpm L6 L5 Hrs L2);
+    [| rewrite map_length, app_length, map_length; cbn; lia | reflexivity | reflexivity | exact Hex | subst s3 sA; unfold keeps5; simp_st; repeat split; reflexivity].
+  cbn [fst snd]. intros _.
+  destruct (ctl_out_quiet (rwmsg false) [] (VBool false) [OTask WSleep0] eq_refl (or_introl eq_refl)) as (O1 & O2 & O3). cbv zeta in O1, O2, O3.
+  cbn [app] in O1, O2, O3. cbn [app].
+  set (q' := mkpos (p_pre q) [] [] (FDH h' :: rest) (p_u q) (p_p q) (p_started q) (p_a0 q) (p_a0 q) (p_aend q) (p_d0 q) (p_dc q)).
+  subst s3 sA. simp_st.
+  eapply I_w with (q := q'); simp_st; rewrite ?L2; cbn [List.tl]; try congruence.
+  - split; [|split].
+    + assert (HP' := PosOK_retop q (FDH (mkhelper P H0 sid true rw)) (FDH h') rest HP Efl eq_refl eq_refl).
+      rewrite Ec, Ei, <- Ea in HP'. apply HP'. intros Hf. discriminate Hf.
+    + unfold LinkR, q', mkpos; cbn [p_c p_infl p_fl p_p p_started p_acur p_a0 p_aend map app fd_frame]. simp_st. rewrite L2. cbn [List.tl].
+      repeat split; try assumption; try reflexivity.
+      * apply snapshot_BR; assumption.
+      * exists h', rest. split; [reflexivity|]. split; [reflexivity|]. eapply nowin_tl. exact L7.
+    + eapply Docs_quiet with (q := q); try reflexivity; eassumption.
+  - exists (VBool false :: vs). cbn [map List.length p_fl q' mkpos]. split; [reflexivity|]. split; [lia | exact Hnn].
+Qed.
+
+(* the suspender plan re-issues a message / has nothing left *)
+Lemma helper_replay_frame sid rw ms (h : helper P) v :
+  hpre h = None -> hpost h = None -> hsid h = sid -> hrw h = rw -> hwas h = true ->
+  (hph h = HRwBack /\ ms = rw \/ hph h = HRewind ms) ->
+  frame_resume (FHelper h) (Send v) =
+  match ms with
+  | [] => (Returned VNone, [])
+  | m :: ms' => (Yielded m (FHelper (mkhelper P (HRewind ms') sid true rw)), [])
+  end.
+Proof.
+  intros H1 H2 H3 H4 H5 H6. destruct h as [ph sid0 pre post was rw0]. cbn [hph hpre hpost hsid hrw hwas] in *.
+  subst pre post sid0 rw0 was.
+  cbn [RE.frame_resume]. unfold RE.helper_resume. cbn [hph].
+  destruct H6 as [[Hp Hm] | Hp]; rewrite Hp; cbn [hrw RE.helper_rewind_next].
+  - subst ms. destruct rw; reflexivity.
+  - destruct ms; reflexivity.
+Qed.
+
+Lemma nohold_cons f fl : fd_hold f = false -> NoHold fl -> NoHold (f :: fl).
+Proof. unfold NoHold. cbn. intros -> H. exact H. Qed.
+
+(* the task runs: whatever is on top of the plan stack is resumed *)
+Lemma step_task_rs (s : st) os q :
+  Core q s os -> state s = Running -> pc s = PcSleep0 -> must_cancel s = false -> permit s = true -> InflOK q ->
+  RespsOK (p_fl q) (S (List.length (p_fl q))) s -> StepOK s os (task_step s).
+Proof.
+  intros HC Hst Hpc Hmc Hpm Hio (vs & Hrs & Hlen & Hnn). pose proof HC as (HP & HLk & HD). unfold InflOK in Hio.
+  pose proof HLk as (L1 & L2 & L3 & L4 & L5 & L6 & L7 & L8 & L9 & L10).
+  destruct vs as [|v vs]; [discriminate Hlen|]. cbn [List.length] in Hlen.
+  pose proof (pos_facts q HP) as (W0 & Wc & We & Hrr & Hn & Hds & Hfresh & drest & Hrest & HSD).
+  pose proof HP as (P1 & P2 & P3 & P4 & P5 & P6 & P7 & P8a & P8b & P8c).
+  destruct (p_fl q) as [|f fl1] eqn:Efl; rewrite ?Efl in *.
+  - (* the user's plan *)
+    assert (Hin : p_infl q = []) by (destruct Hio as [H | (sid & rest & H)]; [exact H | discriminate H]).
+    cbn [map app] in L2. unfold StepOK. destruct (p_u q) as [|m u'] eqn:Eu.
+    + cbn [PointSpec.follows] in P2. destruct vs; [|discriminate Hlen]. cbn [map] in Hrs.
       rewrite (task_return P presume plan_of D dev s v pid (p_p q) (p_started q) rv Hpc Hmc L6 L5 Hrs L2 (P2 v)).
       cbn [fst snd]. intros _.
       destruct (PosOK_end q HP Hin Efl Eu) as (Ha & HSD' & Hds').
-      apply I_final; simp_st; try congruence.
-      unfold FinCore. simp_st. rewrite L2. cbn [List.tl].
+      apply I_final; simp_st; try congruence; [|exists (p_c q ++ p_infl q); exact L1].
+      unfold FinCore. simp_st. rewrite L2. cbn [List.tl forallb].
       split; [reflexivity|]. split; [|split; [exact L6 | split; [exact L10|]]].
       * unfold RE_PointsB.BR in L4. rewrite Ha, Hfin in L4. exact L4.
       * apply DocsAll_neutral; [apply neutral_intro; reflexivity|].
         destruct HD as (D1 & D2 & D3 & D4). unfold DocsAll. split; [exact D1|]. split; [rewrite HSD'; exact D2|].
         split; [rewrite HSD', doc_stops_app, Hds', app_nil_r; exact D3 | exact D4].
-    + (* the plan yields a message *)
-      cbn [PointSpec.follows] in P2. destruct (P2 v) as (p' & Hy & Hf').
-      assert (Hk : bodym m = true \/ (is_head (mcmd m) = true /\ p_fl q = [] /\ @nil (list msg) = [] /\ p_u q = m :: u')).
-      { unfold pend in Hrest. rewrite Hin, Efl, Eu in Hrest. cbn in Hrest.
+    + cbn [PointSpec.follows] in P2. destruct (P2 v) as (p' & Hy & Hf').
+      assert (Hk : bodym m = true \/ (is_head (mcmd m) = true /\ @nil fd = [] /\ @nil fd = [] /\ p_u q = m :: u')).
+      { unfold pend in Hrest. rewrite Hin, Efl, Eu in Hrest. change (fmsgs (@nil fd)) with (@nil msg) in Hrest. cbn in Hrest.
         destruct (astep (p_acur q) m) as [[a1 d1]|] eqn:Ea; [|discriminate].
         destruct (astep_kind _ _ _ _ _ _ Ea) as [Hh|Hb]; [right | left; exact Hb]. auto. }
       destruct (process_msg s os q v (map RVal vs) vs (FUser pid (p_p q) (p_started q)) [] m (FUser pid p' true)
@@ -659,58 +1063,84 @@ Proof.
       * cbn [RE.frame_resume]. rewrite Hy. destruct (p_started q); reflexivity.
       * right. eexists. reflexivity.
       * unfold pend. rewrite Efl, Eu. reflexivity.
+      * rewrite Efl. exact Hk.
       * rewrite E. exact HI.
-  - cbn [map app] in L2. destruct l1 as [|m l1].
-    + (* an exhausted replay list *)
-      destruct (stack_shape fl1 (FUser pid (p_p q) (p_started q))) as (f2 & tl & Hsh & Hlt).
-      rewrite Hsh in L2.
-      rewrite (task_pop P presume plan_of D dev s v (map RVal vs) f2 tl Hpc Hmc Hst Hpm L6 L5 Hrs L2)
-        by (rewrite map_length; cbn [List.length] in Hlen; lia).
-      cbn [fst snd]. intros _.
-      apply Inv_neutral; [apply neutral_intro; reflexivity|].
-      eapply I_rs with (q := mkpos (p_pre q) (p_c q) (p_infl q) fl1 (p_u q) (p_p q) (p_started q) (p_a0 q) (p_acur q) (p_aend q) (p_d0 q) (p_dc q));
-        simp_st; try congruence.
-      * split; [apply PosOK_pop; assumption|]. split; [|exact HD].
-        unfold Link, mkpos; cbn [p_c p_infl p_fl p_p p_started p_acur p_a0 p_aend]. simp_st. rewrite L2, Hsh. cbn [List.tl].
-        repeat split; assumption.
-      * exact Hin.
-      * exists vs. split; [reflexivity | cbn [p_fl mkpos List.length] in *; lia].
-    + (* a replay list re-issues a message *)
-      cbn [forallb] in P8. apply andb_true_iff in P8. destruct P8 as [P81 P82]. cbn [forallb] in P81.
-      apply andb_true_iff in P81. destruct P81 as [Hbm Hbl].
-      destruct (process_msg s os q v (map RVal vs) vs (FList (m :: l1)) (map (@FList P) fl1 ++ [FUser pid (p_p q) (p_started q)]) m
-                  (FList l1) [] (l1 :: fl1) (p_u q) (p_p q) (p_started q)) as (s' & o & E & HI); try assumption; try reflexivity.
-      * cbn [List.length] in *. lia.
-      * left. reflexivity.
-      * unfold pend. rewrite Efl. cbn [List.concat]. rewrite <- !app_assoc. reflexivity.
-      * cbn [forallb]. rewrite Hbl, P82. reflexivity.
-      * left. exact Hbm.
-      * rewrite E. exact HI.
+  - cbn [map app] in L2. destruct f as [l|sid started|h].
+    + (* a rewind plan *)
+      assert (Hin : p_infl q = []) by (destruct Hio as [H | (sid & rest & H)]; [exact H | discriminate H]).
+      destruct l as [|m l1].
+      * eapply (step_rs_pop s os q (FDL []) fl1 v vs VNone); try eassumption; try reflexivity; try (cbn [List.length] in *; lia); try (cbn [new_none] in Hnn; exact Hnn).
+      * rewrite fmsgs_cons in P8a. cbn [fd_msgs] in P8a. cbn [forallb app] in P8a. apply andb_true_iff in P8a. destruct P8a as [Hbm Hbl].
+        cbn [forallb fd_ok] in P8b.
+        assert (Hnh1 : NoHold fl1) by (eapply HoldOK_yield; [exact P8c | discriminate]).
+        unfold StepOK.
+        destruct (process_msg s os q v (map RVal vs) vs (FList (m :: l1)) (map fd_frame fl1 ++ [FUser pid (p_p q) (p_started q)]) m
+                    (FList l1) [] (FDL l1 :: fl1) (p_u q) (p_p q) (p_started q)) as (s' & o & E & HI); try assumption; try reflexivity.
+        -- cbn [List.length] in *. lia.
+        -- left. reflexivity.
+        -- unfold pend. rewrite Efl, !fmsgs_cons. cbn [fd_msgs]. rewrite <- !app_assoc. reflexivity.
+        -- left. exact Hbm.
+        -- rewrite E. exact HI.
+    + (* the single-message plan of a suspension request *)
+      destruct started.
+      * assert (Hin : p_infl q = []) by (destruct Hio as [H | (sid' & rest & H)]; [exact H | discriminate H]).
+        eapply (step_rs_pop s os q (FDS sid true) fl1 v vs v); try eassumption; try reflexivity; try (cbn [List.length] in *; lia); try (cbn [new_none] in Hnn; exact Hnn).
+      * cbn [new_none] in Hnn. destruct Hnn as [-> Hnn].
+        eapply (step_rs_start s os q sid fl1 vs); try eassumption; try (cbn [List.length] in *; lia).
+    + (* the suspender plan *)
+      assert (Hin : p_infl q = []) by (destruct Hio as [H | (sid & rest & H)]; [exact H | discriminate H]).
+      pose proof P8b as P8b'. cbn [forallb fd_ok] in P8b'. apply andb_true_iff in P8b'. destruct P8b' as [Hok Hokr].
+      cbn [forallb fd_win negb] in L7. apply andb_true_iff in L7. destruct L7 as [Hnw L7].
+      destruct (hpre h) eqn:Epre; [discriminate Hok|]. destruct (hpost h) eqn:Epost; [discriminate Hok|].
+      destruct (hph h) as [| |p0| | |p0| |ms] eqn:Eph; try discriminate Hok; try discriminate Hnw.
+      * (* not started *)
+        eapply (step_rs_helper0 s os q h fl1 v vs); try eassumption; try (cbn [List.length] in *; lia); try (cbn [new_none] in Hnn; exact Hnn).
+      * (* about to replay *)
+        pose proof (helper_replay_frame (hsid h) (hrw h) (hrw h) h v Epre Epost eq_refl eq_refl Hok (or_introl (conj Eph eq_refl))) as Hfr.
+        destruct (hrw h) as [|m ms'] eqn:Erw.
+        -- eapply (step_rs_pop s os q (FDH h) fl1 v vs VNone); try eassumption; try reflexivity; try (cbn [List.length] in *; lia); try (cbn [new_none] in Hnn; exact Hnn).
+           cbn [fd_msgs]. rewrite Eph. exact Erw.
+        -- rewrite fmsgs_cons in P8a. cbn [fd_msgs] in P8a. rewrite Eph, Erw in P8a. cbn [forallb app] in P8a.
+           apply andb_true_iff in P8a. destruct P8a as [Hbm Hbl].
+           assert (Hnh1 : NoHold fl1) by (eapply HoldOK_yield; [exact P8c | cbn [fd_msgs]; rewrite Eph, Erw; discriminate]).
+           unfold StepOK.
+           destruct (process_msg s os q v (map RVal vs) vs (FHelper h) (map fd_frame fl1 ++ [FUser pid (p_p q) (p_started q)]) m
+                       (FHelper (mkhelper P (HRewind ms') (hsid h) true (m :: ms'))) []
+                       (FDH (mkhelper P (HRewind ms') (hsid h) true (m :: ms')) :: fl1) (p_u q) (p_p q) (p_started q)) as (s' & o & E & HI);
+             try assumption; try reflexivity.
+           ++ cbn [List.length] in *. lia.
+           ++ left. reflexivity.
+           ++ unfold pend. rewrite Efl, !fmsgs_cons. cbn [fd_msgs mkhelper hph]. rewrite Eph, Erw, <- !app_assoc. reflexivity.
+           ++ left. exact Hbm.
+           ++ rewrite E. exact HI.
+      * (* replaying *)
+        pose proof (helper_replay_frame (hsid h) (hrw h) ms h v Epre Epost eq_refl eq_refl Hok (or_intror Eph)) as Hfr.
+        destruct ms as [|m ms'].
+        -- eapply (step_rs_pop s os q (FDH h) fl1 v vs VNone); try eassumption; try reflexivity; try (cbn [List.length] in *; lia); try (cbn [new_none] in Hnn; exact Hnn).
+           cbn [fd_msgs]. rewrite Eph. reflexivity.
+        -- rewrite fmsgs_cons in P8a. cbn [fd_msgs] in P8a. rewrite Eph in P8a. cbn [forallb app] in P8a.
+           apply andb_true_iff in P8a. destruct P8a as [Hbm Hbl].
+           assert (Hnh1 : NoHold fl1) by (eapply HoldOK_yield; [exact P8c | cbn [fd_msgs]; rewrite Eph; discriminate]).
+           unfold StepOK.
+           destruct (process_msg s os q v (map RVal vs) vs (FHelper h) (map fd_frame fl1 ++ [FUser pid (p_p q) (p_started q)]) m
+                       (FHelper (mkhelper P (HRewind ms') (hsid h) true (hrw h))) []
+                       (FDH (mkhelper P (HRewind ms') (hsid h) true (hrw h)) :: fl1) (p_u q) (p_p q) (p_started q)) as (s' & o & E & HI);
+             try assumption; try reflexivity.
+           ++ cbn [List.length] in *. lia.
+           ++ left. reflexivity.
+           ++ unfold pend. rewrite Efl, !fmsgs_cons. cbn [fd_msgs mkhelper hph]. rewrite Eph, <- !app_assoc. reflexivity.
+           ++ left. exact Hbm.
+           ++ rewrite E. exact HI.
 Qed.
 
-
-Lemma lsame_refl s : lsame s s.
-Proof. unfold lsame. repeat split. Qed.
-Lemma lsame_trans a b c : lsame a b -> lsame b c -> lsame a c.
-Proof. unfold lsame. intros H1 H2. decompose [and] H1. decompose [and] H2. repeat split; congruence. Qed.
-Ltac lsame_tac := unfold lsame; simp_st; repeat split; reflexivity.
-
-Lemma task_step_inr (s : st) r : RE_Inv.tentry P presume D dev s = inr r -> task_step s = r.
-Proof. intros H. rewrite task_step_tentry, H. reflexivity. Qed.
-
 (* a command that was waiting on a future completes *)
-Definition nsame (s s' : st) : Prop :=
-  cache s' = cache s /\ plans s' = plans s /\ uid_supply s' = uid_supply s /\
-  exc_slot s' = exc_slot s /\ stashed s' = stashed s /\ True /\ rewindable s' = rewindable s /\
-  record_intr s' = record_intr s /\ main_err s' = main_err s.
-Ltac nsame_tac := unfold nsame; simp_st; repeat split; reflexivity.
 
 Lemma step_task_rc (s : st) os q k m :
   Core q s os -> state s = Running -> pc s = PcCmd k -> must_cancel s = false -> permit s = true ->
-  p_infl q = [m] -> kmatch (p_acur q) k m -> RespsOK (List.length (p_fl q)) s -> last_msg None os = Some m ->
-  StepOK s os (task_step s).
+  p_infl q = [m] -> kmatch (p_acur q) k m -> RespsOK (List.tl (p_fl q)) (List.length (p_fl q)) s -> last_msg None os = Some m ->
+  not_new (p_fl q) -> StepOK s os (task_step s).
 Proof.
-  intros (HP & HLk & HD) Hst Hpc Hmc Hpm Hin Hkm (vs & Hrs & Hlen) Hlm.
+  intros (HP & HLk & HD) Hst Hpc Hmc Hpm Hin Hkm (vs & Hrs & Hlen & Hnn) Hlm Hnot.
   pose proof HLk as (L1 & L2 & L3 & L4 & L5 & L6 & L7 & L8 & L9 & L10).
   destruct (PosOK_cmd q m HP Hin) as (acur' & dm & Hstep & Hrel & Hincl & HP').
   pose proof (astep_susp_docs _ _ _ _ _ Hstep Hkm) as Hdm. subst dm. rewrite app_nil_r in HP'.
@@ -734,10 +1164,11 @@ Proof.
     apply Inv_neutral; [exact Hn1|].
     eapply I_rs with (q := q'); simp_st; try congruence.
     - split; [exact HP'|]. split; [|exact HD].
-      unfold Link, q', mkpos; cbn [p_c p_infl p_fl p_p p_started p_acur p_a0 p_aend]. simp_st. rewrite app_nil_r.
-      rewrite Hin in L1. repeat split; try congruence.
-    - reflexivity.
-    - exists (r :: vs). cbn [map List.length]. split; [simp_st; congruence | cbn [p_fl q' mkpos]; lia]. }
+      unfold Link, LinkR, q', mkpos; cbn [p_c p_infl p_fl p_p p_started p_acur p_a0 p_aend]. simp_st. rewrite app_nil_r.
+      rewrite Hin in L1. repeat split; try congruence; try assumption.
+    - left. reflexivity.
+    - exists (r :: vs). cbn [map List.length]. split; [simp_st; congruence|]. split; [cbn [p_fl q' mkpos]; lia|].
+      cbn [p_fl q' mkpos]. apply new_none_cons; assumption. }
   unfold StepOK. intros Hreads.
   pose proof (astep_mrun _ _ _ _ _ _ Hstep) as Hrun.
   destruct k as [| |sids|fs|run d z]; cbn [RE_PointsB.kmatch] in Hkm; try contradiction.
@@ -775,36 +1206,16 @@ Proof.
 Qed.
 
 
-Lemma dsame_nsame s s' : dsame s s' -> nsame s s'.
-Proof.
-  intros ((K1 & K2 & K3 & K4 & K5 & K6 & K7 & K8 & K9 & K10 & K11 & K12 & K13) & C1 & C2 & C3).
-  unfold nsame. repeat split; assumption.
-Qed.
 
-Lemma Link_nsame q s s' : nsame s s' -> bundlers s' = bundlers s -> Link q s -> Link q s'.
-Proof.
-  intros (A1 & A2 & A3 & A5 & A6 & A7 & A8 & A9 & A10) A4. apply Link_ext. unfold lsame. repeat split; assumption.
-Qed.
 
-Lemma devonly_neutral o : forallb devonly o = true -> neutral o.
-Proof.
-  intros H. destruct (devonly_final_events _ H) as [F1 F2]. apply neutral_intro; try assumption.
-  - apply devdoc_no_raise, devonly_devdoc, H.
-  - apply devdoc_last_msg, devonly_devdoc, H.
-Qed.
-Lemma neutral_app a b : neutral a -> neutral b -> neutral (a ++ b).
-Proof.
-  intros (A1 & A2 & A3 & A4) (B1 & B2 & B3 & B4). apply neutral_intro.
-  - rewrite final_events_app, A1, B1. reflexivity.
-  - rewrite stops_app, A2, B2. reflexivity.
-  - rewrite no_raise_app, A3, B3. reflexivity.
-  - intros cur. rewrite last_msg_app, A4, B4. reflexivity.
-Qed.
 
 (* a cancelled task parks *)
+Lemma new_none_push_none fl vs : new_none (List.tl fl) vs -> new_none fl (VNone :: vs).
+Proof. destruct fl as [|[l|sid [|]|h] fl]; cbn; auto. Qed.
+
 Lemma step_task_pause (s : st) os q :
-  Core q s os -> state s = Pausing -> (pc s = PcSleep0 /\ p_infl q = [] /\ RespsOK (S (List.length (p_fl q))) s \/
-                                       exists k, pc s = PcCmd k /\ RespsOK (List.length (p_fl q)) s) ->
+  Core q s os -> state s = Pausing -> (pc s = PcSleep0 /\ RespsOK (p_fl q) (S (List.length (p_fl q))) s \/
+                                       exists k, pc s = PcCmd k /\ RespsOK (List.tl (p_fl q)) (List.length (p_fl q)) s) ->
   must_cancel s = true -> interrupted s = true ->
   StepOK s os (task_step s).
 Proof.
@@ -816,30 +1227,24 @@ Proof.
   apply Inv_neutral.
   { cbn [app]. apply neutral_app; [apply devonly_neutral; exact Q3 | apply neutral_intro; reflexivity]. }
   pose proof (dsame_nsame _ _ S3) as N3. destruct S3 as ((K1 & K2 & K3 & K4 & K5 & K6 & K7 & K8 & K9 & K10 & K11 & K12 & K13) & C1 & C2 & C3).
-  destruct Hcase as [(Hpc & Hin & (vs & Hrs & Hlen)) | (k & Hpc & (vs & Hrs & Hlen))]; rewrite Hpc in *; simp_st.
+  destruct Hcase as [(Hpc & (vs & Hrs & Hlen & Hnn)) | (k & Hpc & (vs & Hrs & Hlen & Hnn))]; rewrite Hpc in *; simp_st.
   - eapply I_pd with (q := q); simp_st; try congruence.
     + split; [exact HP|]. split; [|exact HD].
       eapply Link_nsame; [| |exact HLk]; [unfold nsame in *; simp_st; decompose [and] N3; repeat split; congruence | simp_st; congruence].
-    + exists vs. split; [simp_st; congruence | exact Hlen].
+    + exists vs. split; [simp_st; congruence|]. split; [exact Hlen | exact Hnn].
   - eapply I_pd with (q := q); simp_st; try congruence.
     + split; [exact HP|]. split; [|exact HD].
       eapply Link_nsame; [| |exact HLk]; [unfold nsame in *; simp_st; decompose [and] N3; repeat split; congruence | simp_st; congruence].
-    + exists (VNone :: vs). cbn [map List.length]. split; [simp_st; congruence | lia].
+    + exists (VNone :: vs). cbn [map List.length]. split; [simp_st; congruence|]. split; [lia | apply new_none_push_none; exact Hnn].
 Qed.
 
-Lemma nobintr_BR bs a0 acur aend : BR bs a0 acur aend -> nobintr bs = true.
-Proof.
-  unfold RE_PointsB.BR. destruct (a_run acur).
-  - intros (b & X & Y & r0 & rend & -> & _ & _ & _ & (_ & R2 & _) & _). cbn. rewrite R2. reflexivity.
-  - intros ->. reflexivity.
-Qed.
 
 (* the grace sleep after a checkpoint reached with a deferred pause pending is over *)
 Lemma step_task_rk (s : st) os q :
   Core q s os -> state s = Running -> pc s = PcCmd KCkptSleep -> must_cancel s = false -> permit s = true ->
-  p_infl q = [] -> RespsOK (List.length (p_fl q)) s -> StepOK s os (task_step s).
+  p_infl q = [] -> RespsOK (List.tl (p_fl q)) (List.length (p_fl q)) s -> StepOK s os (task_step s).
 Proof.
-  intros (HP & HLk & HD) Hst Hpc Hmc Hpm Hin (vs & Hrs & Hlen).
+  intros (HP & HLk & HD) Hst Hpc Hmc Hpm Hin (vs & Hrs & Hlen & Hnn).
   pose proof HLk as (L1 & L2 & L3 & L4 & L5 & L6 & L7 & L8 & L9 & L10).
   rewrite (task_ckpt_sleep P presume plan_of D dev s (p_c q ++ p_infl q) Hpc Hmc Hst Hpm L6 L1 (nobintr_BR _ _ _ _ L4))
     by (rewrite Hrs, L2, map_length, app_length, map_length; cbn; lia).
@@ -848,17 +1253,17 @@ Proof.
   unfold RE.cancel_task. simp_st. rewrite Hpc. simp_st.
   eapply I_ps with (q := q); simp_st; try congruence; try reflexivity.
   - split; [exact HP|]. split; [|exact HD]. eapply Link_nsame; [nsame_tac | reflexivity | exact HLk].
-  - exists (VNone :: vs). cbn [map List.length]. split; [simp_st; congruence | lia].
+  - exists (VNone :: vs). cbn [map List.length]. split; [simp_st; congruence|]. split; [lia | apply new_none_push_none; exact Hnn].
 Qed.
 
 (* the parked task is scheduled *)
 Lemma step_task_pd (s : st) os q :
   Core q s os -> state s = Paused -> pc s = PcPaused -> must_cancel s = false ->
-  (interrupted s = true -> permit s = false) -> (interrupted s = false -> p_infl q = []) ->
-  RespsOK (S (List.length (p_fl q))) s ->
+  (interrupted s = true -> permit s = false) -> (interrupted s = false -> InflOK q) ->
+  RespsOK (p_fl q) (S (List.length (p_fl q))) s ->
   StepOK s os (task_step s).
 Proof.
-  intros (HP & HLk & HD) Hst Hpc Hmc Hip Hii (vs & Hrs & Hlen).
+  intros (HP & HLk & HD) Hst Hpc Hmc Hip Hii (vs & Hrs & Hlen & Hnn).
   pose proof HLk as (L1 & L2 & L3 & L4 & L5 & L6 & L7 & L8 & L9 & L10).
   unfold StepOK. destruct (permit s) eqn:Hpm.
   - assert (Hi : interrupted s = false) by (destruct (interrupted s); [specialize (Hip eq_refl); discriminate | reflexivity]).
@@ -868,7 +1273,7 @@ Proof.
     eapply I_rs with (q := q); simp_st; try congruence.
     + split; [exact HP|]. split; [|exact HD]. eapply Link_nsame; [nsame_tac | reflexivity | exact HLk].
     + apply Hii. exact Hi.
-    + exists vs. split; [simp_st; exact Hrs | exact Hlen].
+    + exists vs. split; [simp_st; exact Hrs|]. split; [exact Hlen | exact Hnn].
   - rewrite (task_step_inr s (s, [OBad 5])).
     + cbn [fst snd]. intros _. apply Inv_neutral; [apply neutral_intro; reflexivity|].
       eapply I_pd with (q := q); try assumption; [split; [exact HP | split; [exact HLk | exact HD]] | intros _; exact Hpm | exists vs; auto].
@@ -878,25 +1283,26 @@ Qed.
 (* the task is scheduled for the first time *)
 Lemma step_task_ns (s : st) os q :
   Core q s os -> state s = Idle -> (pc s = PcNotStarted \/ pc s = PcPermit0) -> must_cancel s = false ->
-  p_infl q = [] -> RespsOK (S (List.length (p_fl q))) s -> (pc s = PcPermit0 -> permit s = true) ->
+  p_infl q = [] -> RespsOK (p_fl q) (S (List.length (p_fl q))) s -> (pc s = PcPermit0 -> permit s = true) ->
   StepOK s os (task_step s).
 Proof.
-  intros (HP & HLk & HD) Hst Hpc Hmc Hin (vs & Hrs & Hlen) Hg.
+  intros (HP & HLk & HD) Hst Hpc Hmc Hin (vs & Hrs & Hlen & Hnn) Hg.
   pose proof HLk as (L1 & L2 & L3 & L4 & L5 & L6 & L7 & L8 & L9 & L10).
   unfold StepOK. destruct (permit s) eqn:Hpm.
   - rewrite (task_start P presume plan_of D dev s Hpc Hmc Hpm Hst)
       by (rewrite Hrs, L2, map_length, app_length, map_length; cbn; lia).
     cbn [fst snd]. intros _. apply Inv_neutral; [apply neutral_intro; reflexivity|].
     eapply I_rs with (q := q); simp_st; try congruence.
-    + split; [exact HP|]. split; [|exact HD]. unfold Link in *. simp_st. repeat split; assumption.
-    + exists vs. split; [simp_st; exact Hrs | exact Hlen].
+    + split; [exact HP|]. split; [|exact HD]. unfold Link, LinkR in *. simp_st. repeat split; assumption.
+    + left. exact Hin.
+    + exists vs. split; [simp_st; exact Hrs|]. split; [exact Hlen | exact Hnn].
   - destruct Hpc as [Hpc | Hpc]; [|specialize (Hg Hpc); discriminate Hg].
     rewrite (task_step_inr s (RE.set_pc P D (RE.set_must_cancel P D s false) PcPermit0, [OTask WFuture])).
     + cbn [fst snd]. intros _. apply Inv_neutral; [apply neutral_intro; reflexivity|].
       eapply I_ns with (q := q); simp_st; try congruence.
       * split; [exact HP|]. split; [|exact HD]. eapply Link_nsame; [nsame_tac | reflexivity | exact HLk].
       * right. reflexivity.
-      * exists vs. split; [simp_st; exact Hrs | exact Hlen].
+      * exists vs. split; [simp_st; exact Hrs|]. split; [exact Hlen | exact Hnn].
     + unfold RE_Inv.tentry. cbv zeta. rewrite Hpc, Hmc. simp_st. rewrite Hpm. reflexivity.
 Qed.
 
@@ -908,73 +1314,48 @@ Proof.
 Qed.
 
 Lemma step_task_final (s : st) os :
-  FinCore s os -> (state s = Running /\ must_cancel s = false \/ state s = Pausing /\ must_cancel s = true) ->
-  pc s = PcFinalSleep (TReturn rv) ->
+  FinCore s os -> (state s = Running /\ must_cancel s = false \/ (state s = Pausing \/ state s = Suspending) /\ must_cancel s = true) ->
+  pc s = PcFinalSleep (TReturn rv) -> (exists l, cache s = Some l) ->
   StepOK s os (task_step s).
 Proof.
-  intros (F1 & F2 & F3 & F4 & F5) Hcase Hpc. unfold StepOK.
+  intros (F1 & F2 & F3 & F4 & F5) Hcase Hpc (lc & Hca). unfold StepOK.
   destruct Hcase as [(Hst & Hmc) | (Hst & Hmc)].
-  - edestruct finalize_done with (s := RE.set_must_cancel P D s false) (r := TReturn rv) (pend := @None exn) as (s' & o & E & E1 & E2 & E3 & E4 & E5 & E6);
+  - edestruct finalize_done with (s := RE.set_must_cancel P D s false) (r := TReturn rv) (pend := @None exn) as (s' & o & E & E1 & E2 & (E3 & E3') & E4 & E5 & E6);
       simp_st; try assumption; [rewrite Hst; apply allowed_running_idle|].
     rewrite (task_step_inr s (s', o)) by (unfold RE_Inv.tentry; cbv zeta; rewrite Hpc, Hmc; rewrite E; reflexivity).
     cbn [fst snd]. intros _. eapply I_done with (r := TReturn rv); try assumption; try reflexivity.
     + apply DocsAll_ext; assumption.
     + simp_st. congruence.
-  - edestruct finalize_done with (s := RE.set_must_cancel P D s false) (r := TReturn rv) (pend := Some ECancelled) as (s' & o & E & E1 & E2 & E3 & E4 & E5 & E6);
-      simp_st; try assumption; [rewrite Hst; apply allowed_pausing_idle|].
+    + exists lc. simp_st. congruence.
+  - edestruct finalize_done with (s := RE.set_must_cancel P D s false) (r := TReturn rv) (pend := Some ECancelled) as (s' & o & E & E1 & E2 & (E3 & E3') & E4 & E5 & E6);
+      simp_st; try assumption; [destruct Hst as [Hst|Hst]; rewrite Hst; [apply allowed_pausing_idle | apply allowed_suspending_idle]|].
     rewrite (task_step_inr s (s', o)) by (unfold RE_Inv.tentry; cbv zeta; rewrite Hpc, Hmc; rewrite E; reflexivity).
     cbn [fst snd]. intros _. eapply I_done with (r := TRaise ECancelled); try assumption; try reflexivity.
     + apply DocsAll_ext; assumption.
     + simp_st. congruence.
+    + exists lc. simp_st. congruence.
 Qed.
 
 Lemma step_task_done (s : st) os r :
-  DocsAll os -> state s = Idle -> pc s = PcDone r -> res_ok r = true -> main_err s = None ->
+  DocsAll os -> state s = Idle -> pc s = PcDone r -> res_ok r = true -> main_err s = None -> (exists l, cache s = Some l) ->
   StepOK s os (task_step s).
 Proof.
-  intros HD Hst Hpc Hr Hme. unfold StepOK.
+  intros HD Hst Hpc Hr Hme Hca. unfold StepOK.
   rewrite (task_step_inr s (s, [OBad 3])) by (unfold RE_Inv.tentry; cbv zeta; rewrite Hpc; reflexivity).
   cbn [fst snd]. intros _. eapply I_done; try eassumption. apply DocsAll_ext; try reflexivity. exact HD.
 Qed.
 
-
 (* ------------------------------------------------------------------ the other events *)
-Ltac inv_cases HI :=
-  destruct HI as [q (HP & HLk & HD) Hst Hpc Hmc Hin Hrs
-                 | q (HP & HLk & HD) Hst Hpc Hmc Hpm Hin Hrs
-                 | q k m (HP & HLk & HD) Hst Hpc Hmc Hpm Hin Hkm Hrs Hlm
-                 | q (HP & HLk & HD) Hst Hpc Hmc Hit Hin Hrs
-                 | q (HP & HLk & HD) Hst Hpc Hmc Hpm Hin Hrs
-                 | q k (HP & HLk & HD) Hst Hpc Hmc Hit Hrs
-                 | q (HP & HLk & HD) Hst Hpc Hmc Hip Hii Hrs
-                 | (F1 & F2 & F3 & F4 & F5) Hst Hpc Hmc
-                 | (F1 & F2 & F3 & F4 & F5) Hst Hpc Hmc
-                 | r HDA Hst Hpc Hro Hme].
-
 (* the run permit is released (by __call__, or by resume() after it cleared the interruption mark) *)
 Lemma Inv_permit (s : st) os :
   Inv s os -> (state s = Paused -> interrupted s = false) ->
   Inv (RE.set_blocking P D (RE.set_permit P D s true) false) os.
 Proof.
-  intros HI Hg. inv_cases HI.
-  - eapply I_ns with (q := q); simp_st; try assumption.
-    split; [exact HP | split; [eapply Link_nsame; [nsame_tac | reflexivity | exact HLk] | exact HD]].
-  - eapply I_rs with (q := q); simp_st; try assumption; try reflexivity.
-    split; [exact HP | split; [eapply Link_nsame; [nsame_tac | reflexivity | exact HLk] | exact HD]].
-  - eapply (I_rc _ _ q k m); simp_st; try assumption; try reflexivity.
-    split; [exact HP | split; [eapply Link_nsame; [nsame_tac | reflexivity | exact HLk] | exact HD]].
-  - eapply I_ps with (q := q); simp_st; try assumption.
-    split; [exact HP | split; [eapply Link_nsame; [nsame_tac | reflexivity | exact HLk] | exact HD]].
-  - eapply I_rk with (q := q); simp_st; try assumption; try reflexivity.
-    split; [exact HP | split; [eapply Link_nsame; [nsame_tac | reflexivity | exact HLk] | exact HD]].
-  - eapply (I_pc _ _ q k); simp_st; try assumption.
-    split; [exact HP | split; [eapply Link_nsame; [nsame_tac | reflexivity | exact HLk] | exact HD]].
-  - eapply I_pd with (q := q); simp_st; try assumption.
-    + split; [exact HP | split; [eapply Link_nsame; [nsame_tac | reflexivity | exact HLk] | exact HD]].
-    + intros Hi. rewrite (Hg Hst) in Hi. discriminate Hi.
-  - eapply I_final; simp_st; try assumption. unfold FinCore. simp_st. auto.
-  - eapply I_late; simp_st; try assumption. unfold FinCore. simp_st. auto.
-  - eapply I_done; simp_st; eassumption.
+  intros HI Hg. eapply Inv_ext; [| | | | | | | | | exact HI]; simp_st; try reflexivity.
+  - nsame_tac.
+  - right. split; [reflexivity | exact Hg].
+  - auto.
+  - auto.
 Qed.
 
 (* the caching tasks of a bundled read finish *)
@@ -992,26 +1373,7 @@ Qed.
 Lemma Inv_mark_cached (s : st) os run d : Inv s os -> Inv (RE.mark_cached P D s run d) os.
 Proof.
   intros HI. destruct (mark_cached_same s run d) as (N & M1 & M2 & M3 & M4 & M5 & M6 & M7).
-  assert (HLk' : forall q, Link q s -> Link q (RE.mark_cached P D s run d)).
-  { intros q (L1 & L2 & L3 & L4 & L5 & L6 & L7 & L8 & L9 & L10). destruct N as (A1 & A2 & A3 & A5 & A6 & A7 & A8 & A9 & A10).
-    unfold Link. rewrite A1, A2, A3, A5, A6, A8, A9, A10. repeat split; try assumption. apply mark_cached_BR. exact L4. }
-  assert (HC' : forall q, Core q s os -> Core q (RE.mark_cached P D s run d) os).
-  { intros q (A & B & C). split; [exact A | split; [apply HLk'; exact B | exact C]]. }
-  inv_cases HI.
-  - eapply I_ns with (q := q); try congruence; try (apply HC'; split; [assumption | split; assumption]); try (eapply RespsOK_ext; eassumption);
-      try (destruct Hpc; [left | right]; congruence).
-  - eapply I_rs with (q := q); try congruence; try (apply HC'; split; [assumption | split; assumption]); try (eapply RespsOK_ext; eassumption).
-  - eapply (I_rc _ _ q k m); try congruence; try assumption; try (apply HC'; split; [assumption | split; assumption]); try (eapply RespsOK_ext; eassumption).
-  - eapply I_ps with (q := q); try congruence; try (apply HC'; split; [assumption | split; assumption]); try (eapply RespsOK_ext; eassumption).
-  - eapply I_rk with (q := q); try congruence; try (apply HC'; split; [assumption | split; assumption]); try (eapply RespsOK_ext; eassumption).
-  - eapply (I_pc _ _ q k); try congruence; try assumption; try (apply HC'; split; [assumption | split; assumption]); try (eapply RespsOK_ext; eassumption).
-  - eapply I_pd with (q := q); try congruence; try (apply HC'; split; [assumption | split; assumption]); try (eapply RespsOK_ext; eassumption);
-      try (intros Hi; rewrite M4; apply Hip; congruence); try (intros Hi; apply Hii; congruence).
-  - destruct N as (A1 & A2 & A3 & A5 & A6 & A7 & A8 & A9 & A10).
-    eapply I_final; try congruence. unfold FinCore. rewrite A2, A6, A10, (M7 F2). auto.
-  - destruct N as (A1 & A2 & A3 & A5 & A6 & A7 & A8 & A9 & A10).
-    eapply I_late; try congruence. unfold FinCore. rewrite A2, A6, A10, (M7 F2). auto.
-  - destruct N as (A1 & A2 & A3 & A5 & A6 & A7 & A8 & A9 & A10). eapply I_done; try eassumption; congruence.
+  eapply Inv_ext; try eassumption; [left; exact M4 | intros a0 acur aend; apply mark_cached_BR].
 Qed.
 
 (* no task exception is pending when the invariant holds *)
@@ -1038,9 +1400,9 @@ Proof.
 Qed.
 
 Lemma step_reqpause (s : st) os d :
-  Inv s os -> Inv (fst (step s (EvReqPause d))) (os ++ snd (step s (EvReqPause d))).
+  Inv s os -> rewindable s = true -> Inv (fst (step s (EvReqPause d))) (os ++ snd (step s (EvReqPause d))).
 Proof.
-  intros HI. cbn [RE.step].
+  intros HI Hrw. cbn [RE.step].
   assert (Href : allowed (state s) Pausing = false ->
                  Inv (fst (let '(s1, e, o) := RE.request_pause P D s d in
                            let '(s2, o2) := RE.req_result P D s1 e in (s2, o ++ o2)))
@@ -1087,18 +1449,22 @@ Proof.
     eapply (I_pc _ _ q k); try congruence.
     + split; [exact HP | split; [eapply Link_nsame; eassumption | exact HD]].
     + eapply RespsOK_ext; eassumption.
-  - apply Href. rewrite Hst. apply allowed_pausing_pausing.
   - apply Hacc; try assumption; [|rewrite Hpc; exact I].
     intros s1 E1 E2 E3 E4 E5 E6 E7 E8.
     eapply (I_pc _ _ q KCkptSleep); try congruence.
     + split; [exact HP | split; [eapply Link_nsame; eassumption | exact HD]].
     + eapply RespsOK_ext; eassumption.
   - apply Href. rewrite Hst. apply allowed_pausing_pausing.
+  - apply Href. rewrite Hst. apply allowed_pausing_pausing.
   - apply Href. rewrite Hst. apply allowed_paused_pausing.
+  - apply Href. rewrite Hst. apply allowed_suspending_pausing.
+  - apply Href. rewrite Hst. apply allowed_suspending_pausing.
+  - exfalso. destruct HLk as (_ & _ & _ & _ & _ & _ & _ & L8 & _). congruence.
+  - exfalso. destruct HLk as (_ & _ & _ & _ & _ & _ & _ & L8 & _). congruence.
   - apply Hacc; try assumption; [|rewrite Hpc; exact I].
     intros s1 E1 E2 E3 E4 E5 E6 (A1 & A2 & A3 & A5 & A6 & A7 & A8 & A9 & A10) A4.
-    eapply I_late; try congruence. unfold FinCore. rewrite A2, A4, A6, A10. auto.
-  - apply Href. rewrite Hst. apply allowed_pausing_pausing.
+    eapply I_late; try congruence; [unfold FinCore; rewrite A2, A4, A6, A10; auto | left; exact E1 | destruct Hca as [l Hca]; exists l; congruence].
+  - apply Href. destruct Hst as [Hst | Hst]; rewrite Hst; [apply allowed_pausing_pausing | apply allowed_suspending_pausing].
   - apply Href. rewrite Hst. apply allowed_idle_pausing.
 Qed.
 
@@ -1108,7 +1474,7 @@ Lemma step_resume (s : st) os :
   Inv (fst (step s (EvMain AResume))) (os ++ snd (step s (EvMain AResume))).
 Proof.
   intros HI Hpau. pose proof (Inv_nobintr s os HI) as Hnb.
-  inv_cases HI; try (rewrite Hst in Hpau; discriminate Hpau).
+  inv_cases HI; try (rewrite Hst in Hpau; discriminate Hpau); try (destruct Hst as [Hst|Hst]; rewrite Hst in Hpau; discriminate Hpau).
   pose proof HLk as (L1 & L2 & L3 & L4 & L5 & L6 & L7 & L8 & L9 & L10).
   destruct (resume_step P presume plan_of D dev Hdev s (p_c q ++ p_infl q) Hst) as (s5 & o5 & E & S5 & Q5);
     [apply Hnb; rewrite Hst; discriminate | exact L1 |].
@@ -1116,8 +1482,8 @@ Proof.
   apply Inv_neutral; [apply devonly_neutral; exact Q5|].
   pose proof (pos_facts q HP) as (W0 & Wc & We & Hrr & Hn & Hds & Hfresh & _).
   pose proof (dsame_nsame _ _ S5) as N5. destruct S5 as ((K1 & K2 & K3 & K4 & K5 & K6 & K7 & K8 & K9 & K10 & K11 & K12 & K13) & C1 & C2 & C3).
-  destruct Hrs as (vs & Hrs & Hlen).
-  set (q' := mkpos (p_pre q) [] [] ((p_c q ++ p_infl q) :: p_fl q) (p_u q) (p_p q) (p_started q)
+  destruct Hrs as (vs & Hrs & Hlen & Hnn).
+  set (q' := mkpos (p_pre q) [] [] (FDL (p_c q ++ p_infl q) :: p_fl q) (p_u q) (p_p q) (p_started q)
                    (p_a0 q) (p_a0 q) (p_aend q) (p_d0 q) []).
   assert (HBR : BR (bundlers s5) (p_a0 q) (p_a0 q) (p_aend q)).
   { rewrite C2. destruct (Nat.eqb (List.length (p_c q ++ p_infl q)) 0) eqn:El; simp_st.
@@ -1128,10 +1494,10 @@ Proof.
   destruct (Nat.eqb (List.length (p_c q ++ p_infl q)) 0) eqn:El; simp_st.
   all: eapply I_pd with (q := q'); simp_st; try congruence;
     [ split; [apply PosOK_rewind; exact HP|]; split; [|eapply Docs_rewind with (q := q); try reflexivity; exact HD];
-      unfold Link, q', mkpos; cbn [p_c p_infl p_fl p_p p_started p_acur p_a0 p_aend map app]; simp_st;
-      repeat split; congruence
-    | intros _; reflexivity
-    | exists (VNone :: vs); cbn [map List.length p_fl q' mkpos]; split; [simp_st; congruence | lia] ].
+      unfold Link, LinkR, q', mkpos; cbn [p_c p_infl p_fl p_p p_started p_acur p_a0 p_aend map app fd_frame]; simp_st;
+      repeat split; try congruence; cbn [forallb fd_win negb andb]; exact L7
+    | intros _; left; reflexivity
+    | exists (VNone :: vs); cbn [map List.length p_fl q' mkpos]; split; [simp_st; congruence|]; split; [lia | exact Hnn] ].
 Qed.
 
 (* a status object completes successfully / the caller returns *)
@@ -1151,12 +1517,254 @@ Proof.
   - eapply Inv_csame; [|exact HI]. unfold csame, lsame. simp_st. rewrite (Inv_main_err s os HI). repeat split; reflexivity.
 Qed.
 
+(* ------------------------------------------------------------------ suspension *)
+(* the cancelled task of a "suspending" engine goes back to running; the request's plan is on top *)
+Lemma step_task_ss (s : st) os q :
+  Core q s os -> state s = Suspending -> pc s = PcSleep0 -> must_cancel s = true -> permit s = true ->
+  TopNew q -> RespsOK (p_fl q) (S (List.length (p_fl q))) s -> StepOK s os (task_step s).
+Proof.
+  intros (HP & HLk & HD) Hst Hpc Hmc Hpm Htn (vs & Hrs & Hlen & Hnn).
+  pose proof HLk as (L1 & L2 & L3 & L4 & L5 & L6 & L7 & L8 & L9 & L10).
+  pose proof (task_susp_cancel P presume plan_of D dev s (p_c q ++ p_infl q) Hmc Hst L1 Hpm L6) as E. cbv zeta in E. rewrite Hpc in E.
+  unfold StepOK. rewrite E by (left; split; [reflexivity | rewrite Hrs, L2, map_length, app_length, map_length; cbn; lia]).
+  cbn [fst snd]. intros _. apply Inv_neutral; [apply neutral_intro; reflexivity|].
+  eapply I_rs with (q := q); simp_st; try congruence.
+  - split; [exact HP|]. split; [|exact HD]. eapply Link_nsame; [nsame_tac | reflexivity | exact HLk].
+  - right. exact Htn.
+  - exists vs. split; [simp_st; exact Hrs|]. split; [exact Hlen | exact Hnn].
+Qed.
+
+Lemma step_task_sc (s : st) os q k :
+  Core q s os -> state s = Suspending -> pc s = PcCmd k -> must_cancel s = true -> permit s = true ->
+  (exists sid fl0 vs0, p_fl q = FDS sid false :: fl0 /\ resps s = map RVal (VNone :: vs0) /\
+                       List.length vs0 = List.length fl0 /\ not_new fl0 /\ new_none (List.tl fl0) vs0) ->
+  StepOK s os (task_step s).
+Proof.
+  intros (HP & HLk & HD) Hst Hpc Hmc Hpm (sid & fl0 & vs0 & Efl & Hrs & Hlen & Hnot & Hnn).
+  pose proof HLk as (L1 & L2 & L3 & L4 & L5 & L6 & L7 & L8 & L9 & L10).
+  pose proof (task_susp_cancel P presume plan_of D dev s (p_c q ++ p_infl q) Hmc Hst L1 Hpm L6) as E. cbv zeta in E. rewrite Hpc in E.
+  unfold StepOK. rewrite E by (right; exists k; split; [reflexivity | rewrite Hrs, L2, Efl, map_length, app_length, map_length; cbn; lia]).
+  cbn [fst snd]. intros _. apply Inv_neutral; [apply neutral_intro; reflexivity|].
+  eapply I_rs with (q := q); simp_st; try congruence.
+  - split; [exact HP|]. split; [|exact HD]. eapply Link_nsame; [nsame_tac | reflexivity | exact HLk].
+  - right. exists sid, fl0. exact Efl.
+  - exists (VNone :: VNone :: vs0). split; [simp_st; rewrite Hrs; reflexivity|]. rewrite Efl. cbn [List.length new_none]. split; [lia|].
+    split; [reflexivity | apply new_none_cons; assumption].
+Qed.
+
+Lemma helper_win_cases (h : helper P) :
+  fd_ok (FDH h) = true -> fd_win (FDH h) = true ->
+  exists sid rw, (h = mkhelper P HRwFalse sid true rw \/ h = mkhelper P HWait sid true rw \/ h = mkhelper P HResume sid true rw).
+Proof.
+  destruct h as [ph sid pre post was rw]. cbn. destruct pre; [discriminate|]. destruct post; [discriminate|].
+  intros Hok Hw. exists sid, rw. destruct ph; try discriminate Hw; cbn in Hok; subst was; auto.
+Qed.
+
+Definition wfmsg (sid : nat) : msg := RE.mk (CWaitFor [sid]).
+Definition rsmsg : msg := RE.mk CResumeFromSuspender.
+
+(* inside the section in which rewinding is off: wait_for, _resume_from_suspender, rewindable(True) *)
+Lemma step_task_w (s : st) os q :
+  CoreW q s os -> state s = Running -> pc s = PcSleep0 -> must_cancel s = false -> permit s = true ->
+  RespsOK (p_fl q) (S (List.length (p_fl q))) s -> StepOK s os (task_step s).
+Proof.
+  intros (HP & HLk & HD) Hst Hpc Hmc Hpm (vs & Hrs & Hlen & Hnn).
+  pose proof HLk as (L1 & L2 & L3 & L4 & L5 & L6 & (Ec & Ei & h & rest & Efl & Hwin & Hnw) & L8 & L9 & L10).
+  pose proof (pos_facts q HP) as (W0 & Wc & We & Hrr & Hn & Hds & Hfresh & _).
+  pose proof HP as (P1 & P2 & P3 & P4 & P5 & P6 & P7 & P8a & P8b & P8c).
+  rewrite Ec, Ei in *. cbn [app] in L1. cbn in P4. injection P4 as Ea Ed. rewrite <- Ea in *.
+  rewrite Efl in *. cbn [map app fd_frame] in L2. cbn [forallb] in P8b. apply andb_true_iff in P8b. destruct P8b as [Hok Hokr].
+  destruct vs as [|v vs]; [discriminate Hlen|]. cbn [List.length] in Hlen. cbn [new_none] in Hnn.
+  destruct (helper_win_cases h Hok Hwin) as (sid & rw & [-> | [-> | ->]]).
+  - (* wait_for *)
+    set (h' := mkhelper P HWait sid true rw).
+    set (sA := RE.replace_top P D (RE.set_resps P D (RE.set_must_cancel P D s false) (map RVal vs)) (FHelper h')).
+    assert (Hex : exec_cmd (pre_exec P D sA (wfmsg sid)) (wfmsg sid) = (sA, Susp (KWaitFor [sid]), [])).
+    { unfold pre_exec. cbn [mobj wfmsg RE.mk mcmd]. subst sA. simp_st. rewrite L1, L8. cbn [andb]. reflexivity. }
+    unfold StepOK.
+    rewrite (task_msg_susp P presume plan_of D dev s v (map RVal vs) (FHelper (mkhelper P HRwFalse sid true rw))
+               (map fd_frame rest ++ [FUser pid (p_p q) (p_started q)]) (wfmsg sid) (FHelper h') [] sA (KWaitFor [sid]) [] Hpc Hmc L6 L5 Hrs L2);
+      [| reflexivity | reflexivity | exact Hex].
+    cbn [fst snd app]. intros _.
+    set (q' := mkpos (p_pre q) [] [] (FDH h' :: rest) (p_u q) (p_p q) (p_started q) (p_a0 q) (p_a0 q) (p_aend q) (p_d0 q) (p_dc q)).
+    subst sA. simp_st.
+    eapply (I_wc _ _ q' sid); simp_st; rewrite ?L2; cbn [List.tl]; try congruence.
+    + split; [|split].
+      * assert (HP' := PosOK_retop q (FDH (mkhelper P HRwFalse sid true rw)) (FDH h') rest HP Efl eq_refl eq_refl).
+        rewrite Ec, Ei, <- Ea in HP'. apply HP'. intros Hf. discriminate Hf.
+      * unfold LinkR, q', mkpos; cbn [p_c p_infl p_fl p_p p_started p_acur p_a0 p_aend map app fd_frame]. simp_st. rewrite L2. cbn [List.tl].
+        repeat split; try assumption; try reflexivity.
+        exists h', rest. split; [reflexivity|]. split; [reflexivity | exact Hnw].
+      * eapply Docs_quiet with (q := q); try reflexivity; eassumption.
+    + exists h', rest. split; reflexivity.
+    + exists vs. cbn [p_fl q' mkpos List.tl List.length]. split; [reflexivity|]. split; [lia | exact Hnn].
+  - (* _resume_from_suspender *)
+    set (h' := mkhelper P HResume sid true rw).
+    set (sA := RE.replace_top P D (RE.set_resps P D (RE.set_must_cancel P D s false) (map RVal vs)) (FHelper h')).
+    destruct (call_pausables_ok P D dev Hdev sA MResume (or_intror eq_refl)) as (s3 & o & E3 & S3 & Q3).
+    assert (Hex : exec_cmd (pre_exec P D sA rsmsg) rsmsg = (s3, Done (RVal VNone), o)).
+    { unfold pre_exec. cbn [mobj rsmsg RE.mk mcmd]. assert (Hc : cache sA = Some []) by (subst sA; simp_st; exact L1).
+      assert (Hr : rewindable sA = false) by (subst sA; simp_st; exact L8). rewrite Hc, Hr. cbn [andb].
+      unfold RE.exec_cmd. cbn [mcmd]. rewrite E3. reflexivity. }
+    pose proof (dsame_nsame _ _ S3) as N3. destruct S3 as ((K1 & K2 & K3 & K4 & K5 & K6 & K7 & K8 & K9 & K10 & K11 & K12 & K13) & C1 & C2 & C3).
+    unfold StepOK.
+    rewrite (task_msg_done P presume plan_of D dev s v (map RVal vs) (FHelper (mkhelper P HWait sid true rw))
+               (map fd_frame rest ++ [FUser pid (p_p q) (p_started q)]) rsmsg (FHelper h') [] s3 (RVal VNone) o Hpc Hmc Hst Hpm L6 L5 Hrs L2);
+      [| rewrite map_length, app_length, map_length; cbn; lia | reflexivity | reflexivity | exact Hex | unfold keeps5; auto].
+    cbn [fst snd]. intros _.
+    destruct (ctl_out_quiet rsmsg o VNone [OTask WSleep0] Q3 (or_introl eq_refl)) as (O1 & O2 & O3). cbv zeta in O1, O2, O3.
+    cbn [app] in O1, O2, O3 |- *.
+    set (q' := mkpos (p_pre q) [] [] (FDH h' :: rest) (p_u q) (p_p q) (p_started q) (p_a0 q) (p_a0 q) (p_aend q) (p_d0 q) (p_dc q)).
+    destruct N3 as (A1 & A2 & A3 & A5 & A6 & A7 & A8 & A9 & A10). subst sA. simp_st. rewrite L2 in *. cbn [List.tl] in *.
+    eapply I_w with (q := q'); simp_st; try congruence.
+    + split; [|split].
+      * assert (HP' := PosOK_retop q (FDH (mkhelper P HWait sid true rw)) (FDH h') rest HP Efl eq_refl eq_refl).
+        rewrite Ec, Ei, <- Ea in HP'. apply HP'. intros Hf. discriminate Hf.
+      * unfold LinkR, q', mkpos; cbn [p_c p_infl p_fl p_p p_started p_acur p_a0 p_aend map app fd_frame]. simp_st.
+        repeat split; try congruence; try (exists h', rest; split; [reflexivity|]; split; [reflexivity | exact Hnw]).
+      * eapply Docs_quiet with (q := q); try reflexivity; eassumption.
+    + exists (VNone :: vs). cbn [map List.length p_fl q' mkpos new_none]. split; [simp_st; congruence|]. split; [lia | exact Hnn].
+  - (* rewindable(True): the section ends; a checkpoint-like message *)
+    set (h' := mkhelper P HRwBack sid true rw).
+    set (sA := RE.replace_top P D (RE.set_resps P D (RE.set_must_cancel P D s false) (map RVal vs)) (FHelper h')).
+    set (s3 := RE.map_bundlers P D b_snapshot (RE.set_cache P D (RE.set_rewindable P D sA true) (Some []))).
+    assert (Hex : exec_cmd (pre_exec P D sA (rwmsg true)) (rwmsg true) = (s3, Done (RVal (VBool true)), [])).
+    { unfold pre_exec. cbn [mobj rwmsg RE.mk mcmd]. subst s3 sA. simp_st. rewrite L1, L8. cbn [andb].
+      unfold RE.exec_cmd. cbn [mcmd rwmsg RE.mk]. simp_st. rewrite L8. cbn [Bool.eqb negb andb]. unfold RE.resumable, RE.reset_checkpoint. simp_st. rewrite L1. reflexivity. }
+    unfold StepOK.
+    rewrite (task_msg_done P presume plan_of D dev s v (map RVal vs) (FHelper (mkhelper P HResume sid true rw))
+               (map fd_frame rest ++ [FUser pid (p_p q) (p_started q)]) (rwmsg true) (FHelper h') [] s3 (RVal (VBool true)) [] Hpc Hmc Hst Hpm L6 L5 Hrs L2);
+      [| rewrite map_length, app_length, map_length; cbn; lia | reflexivity | reflexivity | exact Hex | subst s3 sA; unfold keeps5; simp_st; repeat split; reflexivity].
+    cbn [fst snd]. intros _.
+    destruct (ctl_out_quiet (rwmsg true) [] (VBool true) [OTask WSleep0] eq_refl (or_introl eq_refl)) as (O1 & O2 & O3). cbv zeta in O1, O2, O3.
+    cbn [app] in O1, O2, O3 |- *.
+    set (q' := mkpos (p_pre q) [] [] (FDH h' :: rest) (p_u q) (p_p q) (p_started q) (p_a0 q) (p_a0 q) (p_aend q) (p_d0 q) (p_dc q)).
+    subst s3 sA. simp_st.
+    eapply I_rs with (q := q'); simp_st; rewrite ?L2; cbn [List.tl]; try congruence.
+    + split; [|split].
+      * assert (HP' := PosOK_retop q (FDH (mkhelper P HResume sid true rw)) (FDH h') rest HP Efl eq_refl eq_refl).
+        rewrite Ec, Ei, <- Ea in HP'. apply HP'. intros Hf. discriminate Hf.
+      * unfold Link, LinkR, q', mkpos; cbn [p_c p_infl p_fl p_p p_started p_acur p_a0 p_aend map app fd_frame]. simp_st. rewrite L2. cbn [List.tl].
+        repeat split; try assumption; try reflexivity.
+        apply snapshot_BR; assumption.
+      * eapply Docs_quiet with (q := q); try reflexivity; eassumption.
+    + left. reflexivity.
+    + exists (VBool true :: vs). cbn [map List.length p_fl q' mkpos new_none]. split; [reflexivity|]. split; [lia | exact Hnn].
+Qed.
+
+(* the wait_for of the suspender plan is over (the suspension was released) *)
+Lemma step_task_wc (s : st) os q sid :
+  CoreW q s os -> state s = Running -> pc s = PcCmd (KWaitFor [sid]) -> must_cancel s = false -> permit s = true ->
+  (exists h rest, p_fl q = FDH h :: rest /\ hph h = HWait) -> RespsOK (List.tl (p_fl q)) (List.length (p_fl q)) s ->
+  StepOK s os (task_step s).
+Proof.
+  intros (HP & HLk & HD) Hst Hpc Hmc Hpm (h & rest & Efl & Hph) (vs & Hrs & Hlen & Hnn).
+  pose proof HLk as (L1 & L2 & L3 & L4 & L5 & L6 & L7 & L8 & L9 & L10).
+  set (o1 := (if RE.all_released P D (RE.set_must_cancel P D s false) [sid] then [] else [OBad 7]) ++ [OResp (RVal (VFuts 1))]).
+  unfold StepOK.
+  rewrite (task_cmd_done P presume plan_of D dev s (RE.set_must_cancel P D s false) (RVal (VFuts 1)) o1); simp_st; try assumption.
+  - cbn [fst snd]. intros _.
+    replace ((o1 ++ []) ++ [OTask WSleep0]) with (o1 ++ [OTask WSleep0]) by (rewrite app_nil_r; reflexivity).
+    rewrite app_assoc. apply Inv_neutral; [apply neutral_intro; reflexivity|].
+    apply Inv_neutral; [subst o1; destruct (RE.all_released P D (RE.set_must_cancel P D s false) [sid]); apply neutral_intro; reflexivity|].
+    eapply I_w with (q := q); simp_st; try congruence.
+    + split; [exact HP|]. split; [|exact HD]. eapply Link_nsame; [nsame_tac | reflexivity | exact HLk].
+    + exists (VFuts 1 :: vs). cbn [map List.length]. split; [simp_st; congruence|]. rewrite Efl in *. cbn [List.length List.tl new_none] in *. split; [lia | exact Hnn].
+  - rewrite Hrs, L2, map_length, app_length, map_length. cbn. lia.
+  - unfold RE_Inv.tentry. cbv zeta. rewrite Hpc, Hmc. reflexivity.
+Qed.
+
+(* a suspension request (no pre/post plans) *)
+Lemma Inv_cache (s : st) os : Inv s os -> exists l, cache s = Some l.
+Proof. intros HI. inv_cases HI; try assumption; eexists; apply HLk. Qed.
+
+Lemma step_reqsuspend (s : st) os sd :
+  Inv s os -> rewindable s = true ->
+  Inv (fst (step s (EvReqSuspend sd false false))) (os ++ snd (step s (EvReqSuspend sd false false))).
+Proof.
+  intros HI Hrw. destruct (Inv_cache s os HI) as [lc Hcache].
+  cbn [RE.step]. unfold RE.resumable. simp_st. rewrite Hcache. cbn [negb].
+  set (s0 := RE.set_futs P D s (if amem sd (RE.futs P D s) then RE.futs P D s else aset sd false (RE.futs P D s))).
+  assert (Hcs0 : csame s s0) by (subst s0; csame_tac).
+  pose proof (Inv_csame _ _ _ Hcs0 HI) as HI0.
+  assert (Hst0 : state s0 = state s) by reflexivity.
+  destruct (rstate_eqb (state s0) Paused) eqn:Epa.
+  - (* paused: only the frame is pushed *)
+    apply rstate_eqb_eq in Epa.
+    match goal with |- context [RE.req_result P D ?x None] =>
+      destruct (req_result_csame x None) as [Hc Hn]; destruct (RE.req_result P D x None) as [s2 o2] end. cbn [fst snd app] in *.
+    apply Inv_neutral; [exact Hn|]. eapply Inv_csame; [exact Hc|].
+    clear HI. inv_cases HI0; try (rewrite Hst in Epa; discriminate Epa); try (destruct Hst as [Hst|Hst]; rewrite Hst in Epa; discriminate Epa).
+    destruct Hrs as (vs & Hrs & Hlen & Hnn).
+    eapply I_pd with (q := mkpos (p_pre q) (p_c q) (p_infl q) (FDS sd false :: p_fl q) (p_u q) (p_p q) (p_started q)
+                                 (p_a0 q) (p_acur q) (p_aend q) (p_d0 q) (p_dc q)); simp_st; try assumption.
+    + split; [apply PosOK_push; exact HP|]. split; [|exact HD].
+      destruct HLk as (L1 & L2 & L3 & L4 & L5 & L6 & L7 & L8 & L9 & L10).
+      unfold Link, LinkR, mkpos; cbn [p_c p_infl p_fl p_p p_started p_acur p_a0 p_aend map app fd_frame]. simp_st.
+      repeat split; try assumption. rewrite L2. reflexivity.
+    + intros Hi. right. exists sd, (p_fl q). reflexivity.
+    + exists (VNone :: vs). cbn [map List.length p_fl mkpos new_none]. split; [simp_st; rewrite Hrs; reflexivity|]. split; [lia | auto].
+  - apply rstate_eqb_neq in Epa. unfold RE.set_state.
+    destruct (allowed (state s0) Suspending) eqn:Eal.
+    + (* running: the engine goes "suspending", the frame is pushed, the task is cancelled *)
+      assert (Hrun : state s0 = Running).
+      { destruct (state s0) eqn:Es; try reflexivity; rewrite allowed_to_suspending in Eal by discriminate; discriminate Eal. }
+      match goal with |- context [RE.req_result P D ?x None] =>
+        destruct (req_result_csame x None) as [Hc Hn]; destruct (RE.req_result P D x None) as [s2 o2] end.
+      cbn [fst snd] in *. rewrite Hrun. rewrite app_assoc. apply Inv_neutral; [exact Hn|].
+      apply Inv_neutral; [apply neutral_intro; reflexivity|].
+      eapply Inv_csame; [exact Hc|]. unfold RE.cancel_task. simp_st.
+      clear HI. inv_cases HI0; try (rewrite Hst in Hrun; discriminate Hrun); try (destruct Hst as [Hst|Hst]; rewrite Hst in Hrun; discriminate Hrun);
+        rewrite Hpc; simp_st.
+      * (* sleep0 *)
+        destruct Hrs as (vs & Hrs & Hlen & Hnn).
+        eapply I_ss with (q := mkpos (p_pre q) (p_c q) (p_infl q) (FDS sd false :: p_fl q) (p_u q) (p_p q) (p_started q)
+                                     (p_a0 q) (p_acur q) (p_aend q) (p_d0 q) (p_dc q)); simp_st; try assumption; try reflexivity.
+        -- split; [apply PosOK_push; exact HP|]. split; [|exact HD].
+           destruct HLk as (L1 & L2 & L3 & L4 & L5 & L6 & L7 & L8 & L9 & L10).
+           unfold Link, LinkR, mkpos; cbn [p_c p_infl p_fl p_p p_started p_acur p_a0 p_aend map app fd_frame]. simp_st.
+           repeat split; try assumption. rewrite L2. reflexivity.
+        -- exists sd, (p_fl q). reflexivity.
+        -- exists (VNone :: vs). cbn [map List.length p_fl mkpos new_none]. split; [simp_st; rewrite Hrs; reflexivity|]. split; [lia | auto].
+      * (* a command is waiting on a future *)
+        destruct Hrs as (vs & Hrs & Hlen & Hnn').
+        eapply (I_sc _ _ (mkpos (p_pre q) (p_c q) (p_infl q) (FDS sd false :: p_fl q) (p_u q) (p_p q) (p_started q)
+                                (p_a0 q) (p_acur q) (p_aend q) (p_d0 q) (p_dc q)) k); simp_st; try assumption; try reflexivity.
+        -- split; [apply PosOK_push; exact HP|]. split; [|exact HD].
+           destruct HLk as (L1 & L2 & L3 & L4 & L5 & L6 & L7 & L8 & L9 & L10).
+           unfold Link, LinkR, mkpos; cbn [p_c p_infl p_fl p_p p_started p_acur p_a0 p_aend map app fd_frame]. simp_st.
+           repeat split; try assumption. rewrite L2. reflexivity.
+        -- exists sd, (p_fl q), vs. cbn [p_fl mkpos]. repeat split; try assumption. simp_st. rewrite Hrs. reflexivity.
+      * (* the grace sleep of a checkpoint *)
+        destruct Hrs as (vs & Hrs & Hlen & Hnn').
+        eapply (I_sc _ _ (mkpos (p_pre q) (p_c q) (p_infl q) (FDS sd false :: p_fl q) (p_u q) (p_p q) (p_started q)
+                                (p_a0 q) (p_acur q) (p_aend q) (p_d0 q) (p_dc q)) KCkptSleep); simp_st; try assumption; try reflexivity.
+        -- split; [apply PosOK_push; exact HP|]. split; [|exact HD].
+           destruct HLk as (L1 & L2 & L3 & L4 & L5 & L6 & L7 & L8 & L9 & L10).
+           unfold Link, LinkR, mkpos; cbn [p_c p_infl p_fl p_p p_started p_acur p_a0 p_aend map app fd_frame]. simp_st.
+           repeat split; try assumption. rewrite L2. reflexivity.
+        -- exists sd, (p_fl q), vs. cbn [p_fl mkpos]. repeat split; try assumption. simp_st. rewrite Hrs. reflexivity.
+      * exfalso. destruct HLk as (_ & _ & _ & _ & _ & _ & _ & L8 & _). change (rewindable s0) with (rewindable s) in L8. congruence.
+      * exfalso. destruct HLk as (_ & _ & _ & _ & _ & _ & _ & L8 & _). change (rewindable s0) with (rewindable s) in L8. congruence.
+      * (* the final sleep *)
+        eapply I_late; simp_st; try assumption; try reflexivity; [|right; reflexivity].
+        destruct F5 as (D1 & D2 & D3 & D4). unfold FinCore, DocsAll. simp_st. cbn [forallb is_single andb]. repeat split; assumption.
+    + (* refused as a whole *)
+      destruct (req_result_csame s0 (Some ETransition)) as [Hc Hn].
+      destruct (RE.req_result P D s0 (Some ETransition)) as [s2 o2]. cbn [fst snd app] in *.
+      apply Inv_neutral; [exact Hn|]. eapply Inv_csame; eassumption.
+Qed.
+
+Lemma step_release (s : st) os sid :
+  Inv s os -> Inv (fst (step s (EvRelease sid))) (os ++ snd (step s (EvRelease sid))).
+Proof. intros HI. cbn [RE.step fst snd]. rewrite app_nil_r. eapply Inv_csame; [|exact HI]. csame_tac. Qed.
+
 (* ------------------------------------------------------------------ every event of a well-formed schedule *)
 Theorem step_inv (s : st) os e :
   Inv s os -> ev_ok P D s e = true -> reads_ok rdm (last_msg None os) (snd (step s e)) = true ->
   Inv (fst (step s e)) (os ++ snd (step s e)).
 Proof.
-  intros HI Hok Hreads. destruct e as [a | a | | | d | | | | | | sid ok | |]; cbn [ev_ok] in Hok; try discriminate Hok.
+  intros HI Hok Hreads. destruct e as [a | a | | | d | | | | sid pre post | sid | sid ok | |]; cbn [ev_ok] in Hok; try discriminate Hok.
   - (* resume() *)
     destruct a; try discriminate Hok. apply step_resume; [exact HI | apply rstate_eqb_eq; exact Hok].
   - (* the caller returns *)
@@ -1172,15 +1780,24 @@ Proof.
       intros Hp. rewrite Hp in Hok. exact Hok.
     + apply (step_task_rs s os q); try assumption. split; [exact HP | split; [exact HLk | exact HD]].
     + apply (step_task_rc s os q k m); try assumption. split; [exact HP | split; [exact HLk | exact HD]].
-    + apply (step_task_pause s os q); try assumption; [split; [exact HP | split; [exact HLk | exact HD]]|]. left. auto.
     + apply (step_task_rk s os q); try assumption. split; [exact HP | split; [exact HLk | exact HD]].
+    + apply (step_task_pause s os q); try assumption; [split; [exact HP | split; [exact HLk | exact HD]]|]. left. auto.
     + apply (step_task_pause s os q); try assumption; [split; [exact HP | split; [exact HLk | exact HD]]|]. right. exists k. auto.
     + apply (step_task_pd s os q); try assumption. split; [exact HP | split; [exact HLk | exact HD]].
-    + apply step_task_final; [unfold FinCore; auto | left; auto | exact Hpc].
-    + apply step_task_final; [unfold FinCore; auto | right; auto | exact Hpc].
+    + apply (step_task_ss s os q); try assumption. split; [exact HP | split; [exact HLk | exact HD]].
+    + apply (step_task_sc s os q k); try assumption. split; [exact HP | split; [exact HLk | exact HD]].
+    + apply (step_task_w s os q); try assumption. split; [exact HP | split; [exact HLk | exact HD]].
+    + apply (step_task_wc s os q sid); try assumption. split; [exact HP | split; [exact HLk | exact HD]].
+    + apply step_task_final; [unfold FinCore; auto | left; auto | exact Hpc | exact Hca].
+    + apply step_task_final; [unfold FinCore; auto | right; auto | exact Hpc | exact Hca].
     + eapply step_task_done; eassumption.
   - (* pause request *)
-    apply step_reqpause. exact HI.
+    apply step_reqpause; [exact HI | destruct (rewindable s); [reflexivity | discriminate Hok]].
+  - (* suspension request *)
+    destruct pre; [discriminate Hok|]. destruct post; [discriminate Hok|].
+    apply step_reqsuspend; [exact HI | destruct (rewindable s); [reflexivity | discriminate Hok]].
+  - (* release *)
+    apply step_release. exact HI.
   - (* status *)
     destruct ok; [|discriminate Hok]. apply step_status. exact HI.
   - (* caching tasks done *)
@@ -1213,12 +1830,13 @@ Proof.
   apply arun_app in HL'. destruct HL' as (aend0 & d1 & d2 & E1 & _ & _).
   eapply I_ns with (q := mkpos [] [] [] [] L (plan_of pid) false a_init a_init aend0 [] []); simp_st; try reflexivity.
   - split; [|split].
-    + unfold PosOK, mkpos, pend; cbn. repeat split; try reflexivity; try assumption. exists d1. exact E1.
-    + unfold Link, mkpos; cbn [p_c p_infl p_fl p_p p_started p_acur p_a0 p_aend map app]. unfold RE.clear_call. simp_st.
+    + unfold PosOK, mkpos, pend; cbn. change (fmsgs (@nil fd)) with (@nil msg). cbn [app].
+      pos_split; try reflexivity; try assumption; [exists d1; exact E1 | apply HoldOK_nil].
+    + unfold Link, LinkR, mkpos; cbn [p_c p_infl p_fl p_p p_started p_acur p_a0 p_aend map app]. unfold RE.clear_call. simp_st.
       repeat split; reflexivity.
     + unfold Docs. cbn. repeat split; intros x [].
   - left. reflexivity.
-  - exists [VNone]. split; reflexivity.
+  - exists [VNone]. repeat split; reflexivity.
 Qed.
 
 (* ------------------------------------------------------------------ what a finished call has recorded *)
